@@ -1,25 +1,29 @@
 """C04 -- delimited-text record files round-trip values and structure."""
 import ast
 
-from vcheck import cfront, rules
-from vcheck.core import PyRepo, AnalysisError, call_name, dotted_name, kwarg, norm, walk_no_nested
+from vcheck import cfront
+from vcheck.core import PyRepo, AnalysisError, norm
 from vcheck.cstr import c_string_literal, printf_directives
-from vcheck.rules import cfg_of
 
 MANIFEST = dict(
-    text="Table/format agreement from the clang AST plus structural rules (not a behavioural proof of libc): the print and scan "
-         "format tables are obtained by abstract evaluation of the table-building code (string appends with enumerator indices, the "
-         "%Ld repair loop, the delimiter suffix) and checked per numpy type: print length modifier/conversion matches the C type "
-         "dereferenced in the matching switch arm (cast agrees with case label), scan length modifier matches the destination element "
-         "size, float precisions are >= 7 (f4) and >= 16 (f8) significant digits with g, every type of the property's list has an arm, "
-         "a print and a scan format; fixed-width strings are written and read as exactly size/nel raw bytes on both sides; the writer "
-         "emits the delimiter between elements and fields and a newline per row, the reader consumes exactly one delimiter/EOL after each "
-         "string element and the delimiter through the scan suffix (or one fgetc in whitespace mode) after each number; text output "
-         "converts a copy to native order before Write; the reader dtype and the header _DTYPE are byte-order-stripped exactly for text "
-         "files and _DELIM is recorded. A scan suffix that begins with a whitespace directive is reported as a hazard for a following "
-         "fixed-width string field with leading blanks.",
-    note="Not decided: libc printf/scanf numeric round trip, NaN/inf spellings. Assumes LP64. The whitespace-directive hazard is a recorded known finding.",
-    technique="static analysis: abstract evaluation of format-table building code from the clang AST, printf/scanf directive parsing and type agreement, structural reader/writer pairing",
+    text="Table/format agreement plus reader/writer pairing, decided by running the C++ code of the clang AST on small shapes (not a behavioural "
+         "proof of libc): the print and scan format tables are obtained by executing the table-building functions (string appends with "
+         "enumerator indices, the %Ld repair, the delimiter suffix, stringstream) and checked per numpy type: print length modifier/"
+         "conversion matches the C type the number writer reads from the buffer for that type, scan length modifier matches the destination "
+         "element size, float precisions are >= 7 (f4) and >= 16 (f8) significant digits with g, every type of the property's list has an "
+         "arm, a print and a scan format; the string writer, the string reader, WriteField, WriteRows, read_from_text_column and "
+         "scan_column_values are executed with symbolic data and streams on shapes such as 3 elements of 8 bytes / 3 fields / 2 rows, every "
+         "outcome of a test on data explored, and the trace of stdio calls and stores is compared with the expected one: fixed-width strings "
+         "are written and read as exactly size/nel raw bytes, the delimiter stands between elements and fields and a newline ends each row, "
+         "the reader consumes exactly one delimiter/EOL after each string element and the delimiter through the scan suffix (or one fgetc in "
+         "whitespace mode) after each number. Python side, by path-sensitive evaluation over terms with private helpers followed: text "
+         "output converts a fresh copy to native order before Write (and binary output does not), the reader dtype and the header _DTYPE are "
+         "byte-order-stripped exactly for text files, _DELIM is recorded and read back from the header. A scan suffix that begins with a "
+         "whitespace directive is reported as a hazard for a following fixed-width string field with leading blanks.",
+    note="Not decided: libc printf/scanf numeric round trip, NaN/inf spellings. Assumes LP64 and that stdio calls succeed. Bounded shapes, not a proof "
+         "for all sizes. The whitespace-directive hazard is a recorded known finding.",
+    technique="static analysis: bounded symbolic execution of the C++ reader/writer and format-table code over the clang AST (trace comparison), "
+              "printf/scanf directive parsing and type agreement, path-sensitive term evaluation of the Python wrappers",
 )
 
 CTYPE_OF = {  # printf (length, conv) -> accepted C types of the promoted-from argument
@@ -36,16 +40,17 @@ NEEDED = {"NPY_BYTE": "i1", "NPY_UBYTE": "u1", "NPY_SHORT": "i2", "NPY_USHORT": 
 W = "esutil/recfile/records.cpp"
 
 
-# rules that keep their verdict however the code is laid out (decided by term equality, effect analysis or dominance over
-# resolved calls); every other rule of this check is a template rule (vcheck.core.Check.obt)
-SEMANTIC = ('R04.1', 'R04.3', 'R04.3n', 'R04.4')
+# rules that keep their verdict however the code is laid out: the C++ rules compare the trace of a bounded execution (calls into helpers
+# followed), the Python rules compare path summaries over terms (private helpers followed); a construct neither evaluator models gives
+# ok=None (no verdict), never a violation.  No rule of this check recognises its construct by statement shape any more.
+SEMANTIC = ('R04.1', 'R04.2', 'R04.3', 'R04.3n', 'R04.4', 'R04.5')
 
 
 def run(chk):
     repo = PyRepo()
     chk.set_templates(repo, semantic=SEMANTIC)
     chk.explanation = MANIFEST["text"]
-    chk.trusted = ["clang 14 AST", "C99 printf/scanf directive semantics", "LP64"]
+    chk.trusted = ["clang 14 AST", "C99 printf/scanf directive semantics", "LP64", "numpy NPY_TYPES enumerator values (cross-checked against the case labels)"]
     chk.assume("LP64: long and npy_int64 are 8 bytes")
     chk.floor = 70
     cfun = cfront.functions(cfront.load_tu("records"))
@@ -54,101 +59,920 @@ def run(chk):
         if nm not in cfun:
             raise AnalysisError("C++ anchor %s missing" % nm)
         chk.analysed_unit(nm)
-    scan, suffix = eval_scan_table(chk, cfun["Records::make_scan_formats"])
-    prt = eval_print_table(chk, cfun["Records::make_print_formats"], scan)
-    arms = switch_arms(chk, cfun["Records::WriteNumberAsAscii"])
+    chk.assume("stdio calls succeed while a table is read or written (no end of file, no write error, one item converted per fscanf)")
+    tu = _TU(cfun)
+    scan, prt = format_tables(chk, tu)
+    arms = switch_arms(chk, tu)
     tables(chk, scan, prt, arms)
-    strings(chk, cfun)
-    delimiters(chk, cfun, suffix)
+    strings(chk, tu)
+    delimiters(chk, tu)
     python_side(chk, repo)
     # the converter used before a text write decides on every field with a byte order (shared rule with C16)
     from checks import C16
     C16.r16_6(chk, repo, rule="R04.3n", only="esutil.recfile.Util.to_native_inplace")
-
+    # Check.finish lets *any* failing instance -- also one that is a recorded known finding, and R04.5 is one -- stand for "a real violation was
+    # found elsewhere", which would turn every "construct not recognised" of this check into a silent pass.  Only unknown failures may do that.
+    from vcheck.core import load_known
+    known = {(k.get("rule"), k.get("key")) for k in load_known()["open"] if k.get("property") == chk.pid}
+    if chk.only is None and chk.unrecognised and all(o["ok"] or (o["rule"], o["key"]) in known for o in chk.obl):
+        u = chk.unrecognised
+        raise AnalysisError("%s: %d rule instance(s) could not recognise the construct they are about (no verdict): %s"
+                            % (chk.pid, len(u), "; ".join("%s %s [%s] %s" % (x["rule"], x["key"], x["where"], x["msg"][:160]) for x in u[:4])))
 
 # ---------------------------------------------------------------------------
-def eval_scan_table(chk, fn):
-    """abstract evaluation of make_scan_formats with add_delim=true in non-whitespace mode.
-    returns ({index: format without suffix}, suffix template)"""
-    body = cfront.body_of(fn)
-    base = None
-    table = {}
-    suffix = None
-    for st in body.get("inner", []):
-        k = st.get("kind")
-        txt = cfront.render(st)
-        if "resize" in txt and base is None:
-            lits = [c_string_literal(x) for x in cfront.walk(st) if x.get("kind") == "StringLiteral"]
-            base = lits[0] if lits else None
-        elif k == "CXXOperatorCallExpr" and cfront.callee_name(st) in ("operator+=", "operator="):
-            args = cfront.call_args(st)
-            lhs = cfront.strip(args[0])
-            if lhs.get("kind") == "CXXOperatorCallExpr" and cfront.callee_name(lhs) == "operator[]":
-                idx = cfront.render(cfront.call_args(lhs)[1])
-                lit = c_string_literal(args[1])
-                if lit is None:
-                    raise AnalysisError("non-literal format fragment in make_scan_formats: %s" % txt)
-                cur = table.get(idx, base)
-                table[idx] = (cur + lit) if cfront.callee_name(st) == "operator+=" else lit
-        elif k == "ForStmt":
-            # %Ld -> %lld repair loop: formats[i] == "lit" -> formats[i] = "lit2"
-            for iff in [x for x in cfront.walk(st) if x.get("kind") == "IfStmt"]:
-                lits = [c_string_literal(x) for x in cfront.walk(iff) if x.get("kind") == "StringLiteral"]
-                if len(lits) == 2:
-                    for kx, v in list(table.items()):
-                        if v == lits[0]:
-                            table[kx] = lits[1]
+# bounded execution of the C++ reader / writer over the clang AST (R04.1, R04.2, R04.4, R04.5)
+#
+# The functions are *run* on small concrete shapes (3 elements of 8 bytes, 3 fields, 2 rows ...) with every byte of data, every
+# stream and every flag that is not fixed by the configuration kept symbolic; the rules are statements about the sequence of
+# stdio calls and memory stores that results (e.g. element, delimiter, element, delimiter, element -- and nothing after the
+# last).  A test on symbolic data forks the run (both outcomes are explored, depth first); stdio is assumed to succeed.
+# Because only the observable trace is compared, for/while, hoisted or inlined locals, swapped if/else arms, guard clauses,
+# `el > 0` before vs `el < nel-1` after, fputs vs fprintf("%s"), and helpers that were extracted or inlined (calls into other
+# functions of the translation unit are followed) give the same verdict.  Code the interpreter does not model -> no verdict.
+# ---------------------------------------------------------------------------
+NPY_TYPES = {n: i for i, n in enumerate(
+    "NPY_BOOL NPY_BYTE NPY_UBYTE NPY_SHORT NPY_USHORT NPY_INT NPY_UINT NPY_LONG NPY_ULONG NPY_LONGLONG NPY_ULONGLONG NPY_FLOAT NPY_DOUBLE "
+    "NPY_LONGDOUBLE NPY_CFLOAT NPY_CDOUBLE NPY_CLONGDOUBLE NPY_OBJECT NPY_STRING NPY_UNICODE NPY_VOID NPY_DATETIME NPY_TIMEDELTA NPY_HALF".split())}
+_CASTS = ("ImplicitCastExpr", "ParenExpr", "CStyleCastExpr", "ConstantExpr", "ExprWithCleanups", "MaterializeTemporaryExpr", "CXXBindTemporaryExpr",
+          "CXXStaticCastExpr", "CXXReinterpretCastExpr", "CXXConstCastExpr", "CXXFunctionalCastExpr")
+_WRITERS = ("fputc", "putc", "fputs", "fprintf", "fwrite", "fflush", "putc_unlocked", "fputc_unlocked")
+
+
+class _CUnrec(Exception):
+    """the code uses a construct the interpreter does not model: no verdict"""
+
+
+class _Flow(Exception):
+    def __init__(self, value=None):
+        self.value = value
+
+
+class _Break(_Flow):
+    pass
+
+
+class _Continue(_Flow):
+    pass
+
+
+class _Return(_Flow):
+    pass
+
+
+class _Throw(_Flow):
+    pass
+
+
+class _Ref:
+    def __init__(self, loc):
+        self.loc = loc
+
+
+class _Vec:
+    """std::vector with concrete length (the format tables); elements are values"""
+    def __init__(self, items=()):
+        self.items = list(items)
+
+
+class _Arr:
+    """a member array of the configuration: every index holds the same value unless listed"""
+    def __init__(self, default, **special):
+        self.default, self.special = default, {int(k[1:]): v for k, v in special.items()}
+
+    def get(self, i):
+        return self.special.get(i, self.default)
+
+
+class _SStream:
+    def __init__(self):
+        self.value = ""
+
+
+def _kids(n):
+    return [c for c in (n.get("inner") or []) if isinstance(c, dict) and c.get("kind")]
+
+
+def _qt(n):
+    t = n.get("type") or {}
+    return t.get("desugaredQualType") or t.get("qualType") or ""
+
+
+def _ct(n):
+    """the C type an lvalue is read as, qualifiers dropped"""
+    return " ".join(w for w in _qt(n).split() if w not in ("const", "volatile"))
+
+
+def _stride(qual):
+    """size of the pointee of a pointer type (None: not a pointer, 0: a pointer this check does no arithmetic on)"""
+    q = qual.replace("const ", "").replace("__restrict", "").strip()
+    if not q.endswith("*"):
+        return None
+    p = q[:-1].strip()
+    if p.endswith("*"):
+        return 8
+    if p == "void":
+        return 1
+    return SIZEOF.get(p, 0)
+
+
+def _cat(a, b):
+    """concatenation of two string values (python str = known text; other terms = unknown text)"""
+    pa = list(a[1]) if isinstance(a, tuple) and a[0] == "cat" else [a]
+    pb = list(b[1]) if isinstance(b, tuple) and b[0] == "cat" else [b]
+    out = []
+    for p in pa + pb:
+        if isinstance(p, int):
+            p = chr(p)
+        if isinstance(p, str) and out and isinstance(out[-1], str):
+            out[-1] += p
+        elif p != "":
+            out.append(p)
+    if not out:
+        return ""
+    return out[0] if len(out) == 1 else ("cat", tuple(out))
+
+
+def _aff(v):
+    """(base, byte offset) of a pointer value"""
+    if isinstance(v, tuple) and v[0] == "aff":
+        return v[1], v[2]
+    return v, 0
+
+
+def _mkaff(base, off):
+    return ("aff", base, off)
+
+
+class _CX:
+    def __init__(self, funcs, mem, opaque=(), prefix=(), cls="Records", maxsteps=20000, by_id=None):
+        self.funcs, self.mem, self.opaque, self.cls, self.by_id = funcs, dict(mem), set(opaque), cls, by_id or {}
+        self.prefix, self.dec, self.decided = list(prefix), [], {}
+        self.events, self.nret, self.steps, self.maxsteps, self.depth = [], 0, 0, maxsteps, 0
+        self.followed, self.foreign = [], set()
+
+    # -- values -----------------------------------------------------------------
+    def truth(self, v):
+        if isinstance(v, bool) or isinstance(v, int):
+            return bool(v)
+        if isinstance(v, float):
+            return v != 0
+        if isinstance(v, str) or (isinstance(v, tuple) and v[0] in ("aff", "fn", "cat", "this")):
+            return True
+        if not isinstance(v, tuple):
+            raise _CUnrec("truth value of %r" % (v,))
+        if (v[0] == "op" and v[1] in ("==", "!=", "<", ">", "<=", ">=")) or (v[0] == "un" and v[1] == "!"):
+            return self.decide(v)
+        return not self.decide(("op", "==", v, 0))          # `if (c)` and `if (c != 0)` are the same test
+
+    def decide(self, t):
+        if t[0] == "un" and t[1] == "!":
+            return not self.truth(t[2])
+        if t[0] == "op" and t[1] == "!=":
+            return not self.decide(("op", "==", t[2], t[3]))
+        if t[0] == "op" and t[1] in ("==", "<", ">", "<=", ">=") and isinstance(t[2], int) and not isinstance(t[3], int):
+            t = ("op", {"==": "==", "<": ">", ">": "<", "<=": ">=", ">=": "<="}[t[1]], t[3], t[2])
+        o = self.oracle(t)
+        if o is not None:
+            return o
+        if t in self.decided:
+            return self.decided[t]
+        i = len(self.dec)
+        r = self.prefix[i] if i < len(self.prefix) else True
+        self.dec.append(r)
+        self.decided[t] = r
+        return r
+
+    @staticmethod
+    def oracle(t):
+        """stdio succeeds: no end of file, no write error, one item converted per scan directive"""
+        if t[0] == "op" and isinstance(t[2], tuple) and t[2][0] == "ret" and isinstance(t[3], int):
+            f, op, c = t[2][1], t[1], t[3]
+            if f in ("fgetc", "getc", "getc_unlocked") and op == "==" and c == -1:
+                return False
+            if f in _WRITERS and ((op == "==" and c == -1) or (op == "<" and c <= 0) or (op == "<=" and c < 0)):
+                return False
+            if f in ("fscanf", "sscanf") and c == 1:
+                return {"==": True, "<": False, ">=": True, ">": False, "<=": True}.get(op)
+            if f in ("feof", "ferror") and c == 0:
+                return {"==": True, ">": False}.get(op)
+        return None
+
+    def binop(self, op, a, b, n=None):
+        if isinstance(a, bool):
+            a = int(a)
+        if isinstance(b, bool):
+            b = int(b)
+        num = (int, float)
+        if isinstance(a, num) and isinstance(b, num):
+            if op == "/":
+                if b == 0:
+                    raise _CUnrec("division by zero")
+                if isinstance(a, int) and isinstance(b, int):
+                    q = abs(a) // abs(b)
+                    return q if (a >= 0) == (b >= 0) else -q
+                return a / b
+            if op == "%":
+                if b == 0:
+                    raise _CUnrec("division by zero")
+                return abs(a) % abs(b) * (1 if a >= 0 else -1)
+            f = {"+": lambda: a + b, "-": lambda: a - b, "*": lambda: a * b, "<": lambda: int(a < b), ">": lambda: int(a > b), "<=": lambda: int(a <= b),
+                 ">=": lambda: int(a >= b), "==": lambda: int(a == b), "!=": lambda: int(a != b), "&": lambda: a & b, "|": lambda: a | b, "^": lambda: a ^ b,
+                 "<<": lambda: a << b, ">>": lambda: a >> b}.get(op)
+            if f is None:
+                raise _CUnrec("operator %s" % op)
+            return f()
+        ks = _kids(n) if n is not None else []
+        lt = _stride(_qt(ks[0])) if len(ks) == 2 else None
+        rt = _stride(_qt(ks[1])) if len(ks) == 2 else None
+        if op in ("+", "-") and 0 in (lt, rt):
+            raise _CUnrec("pointer arithmetic on %s" % _qt(ks[0 if lt == 0 else 1]))
+        if op in ("+", "-") and isinstance(b, int) and isinstance(a, tuple) and (lt is not None or a[0] == "aff"):
+            base, off = _aff(self.ptr(a))
+            return _mkaff(base, off + (b if op == "+" else -b) * (lt or 1))
+        if op == "+" and isinstance(a, int) and isinstance(b, tuple) and (rt is not None or b[0] == "aff"):
+            base, off = _aff(self.ptr(b))
+            return _mkaff(base, off + a * (rt or 1))
+        if isinstance(a, tuple) and isinstance(b, tuple) and _aff(a)[0] == _aff(b)[0] and (a[0] == "aff" or b[0] == "aff") and op in ("-", "<", ">", "<=", ">=", "==", "!="):
+            return self.binop(op, _aff(a)[1], _aff(b)[1])
+        if op in ("==", "!=") and a == b and not (isinstance(a, tuple) and a[0] == "undef"):
+            return int(op == "==")
+        if op in ("==", "!=") and ((isinstance(a, tuple) and a[0] == "aff" and b == 0) or (isinstance(b, tuple) and b[0] == "aff" and a == 0)):
+            return int(op == "!=")
+        if op in ("==", "!=") and isinstance(a, str) and isinstance(b, str):
+            return int((a == b) == (op == "=="))
+        return ("op", op, a, b)
+
+    # -- locations -----------------------------------------------------------------
+    def load(self, loc):
+        k = loc[0]
+        if k == "var":
+            v = loc[1][loc[2]] if loc[2] in loc[1] else self.mem.get(loc[2], ("sym", loc[2]))      # not a local: a global / static member
+            return self.load(v.loc) if isinstance(v, _Ref) else v
+        if k == "mem":
+            return self.mem.get(loc[1], ("sym", loc[1]))
+        if k == "elem":
+            c, i = loc[1], loc[2]
+            if isinstance(c, _Vec) and isinstance(i, int) and 0 <= i < len(c.items):
+                return c.items[i]
+            if isinstance(c, _Arr) and isinstance(i, int):
+                return c.get(i)
+            if isinstance(c, str) and isinstance(i, int) and 0 <= i < len(c):
+                return ord(c[i])
+            if isinstance(c, (_Vec, _Arr)):
+                raise _CUnrec("index %r into a table" % (i,))
+            return ("idx", c, i)
+        if k == "ptr":
+            return ("load", loc[1], loc[2])
+        if k == "val":
+            return loc[1]
+        raise _CUnrec("load from %r" % (loc,))
+
+    def store(self, loc, v):
+        k = loc[0]
+        if k == "var":
+            cur = loc[1].get(loc[2])
+            if isinstance(cur, _Ref):
+                return self.store(cur.loc, v)
+            loc[1][loc[2]] = v
+        elif k == "mem":
+            self.mem[loc[1]] = v
+        elif k == "elem" and isinstance(loc[1], _Vec) and isinstance(loc[2], int) and 0 <= loc[2] < len(loc[1].items):
+            loc[1].items[loc[2]] = v
+        elif k == "ptr":
+            self.events.append(("store", loc[1], v))
+        elif k == "elem" and not isinstance(loc[1], (_Vec, _Arr)):
+            self.events.append(("store", ("idx", loc[1], loc[2]), v))
+        else:
+            raise _CUnrec("store to %r" % (loc,))
+
+    def lv(self, n, env):
+        k = n.get("kind")
+        ks = _kids(n)
+        if k in _CASTS:
+            return self.lv(ks[-1] if k == "CXXFunctionalCastExpr" else ks[0], env)
+        if k == "DeclRefExpr":
+            rd = n.get("referencedDecl") or {}
+            if rd.get("kind") in ("VarDecl", "ParmVarDecl"):
+                return ("var", env, rd.get("name"))
+            return ("val", self.rv(n, env))
+        if k == "MemberExpr":
+            if not ks or cfront.strip(ks[0]).get("kind") == "CXXThisExpr":
+                return ("mem", n.get("name"))
+            return ("val", ("field", self.rv(ks[0], env), n.get("name")))
+        if k == "UnaryOperator" and n.get("opcode") == "*":
+            return ("ptr", self.ptr(self.rv(ks[0], env)), _ct(n))
+        if k == "ArraySubscriptExpr":
+            p, i = self.rv(ks[0], env), self.rv(ks[1], env)
+            st = _stride(_qt(ks[0]))
+            if st is None:
+                p, i, st = i, p, _stride(_qt(ks[1]))
+            if st == 0:
+                raise _CUnrec("indexing a %s" % _qt(ks[0]))
+            if not isinstance(i, int):
+                raise _CUnrec("symbolic array index")
+            base, off = _aff(self.ptr(p))
+            return ("ptr", _mkaff(base, off + i * (st or 1)), _ct(n))
+        if k == "CXXOperatorCallExpr" and cfront.callee_name(n) == "operator[]":
+            a = cfront.call_args(n)
+            c = self.rv(a[0], env)
+            return ("elem", c, self.rv(a[1], env))
+        if k == "CXXOperatorCallExpr" and cfront.callee_name(n) in ("operator=", "operator+=", "operator<<"):
+            self.rv(n, env)
+            return self.lv(cfront.call_args(n)[0], env)
+        if k in ("BinaryOperator", "CompoundAssignOperator") and (n.get("opcode") == "=" or k == "CompoundAssignOperator"):
+            self.rv(n, env)
+            return self.lv(ks[0], env)
+        if k == "UnaryOperator" and n.get("opcode") in ("++", "--") and not n.get("isPostfix"):
+            self.rv(n, env)
+            return self.lv(ks[0], env)
+        return ("val", self.rv(n, env))
+
+    def ptr(self, v):
+        if isinstance(v, tuple) and v[0] in ("aff", "sym", "addr", "load", "idx", "ret", "field", "undef", "buf", "obj", "mcall"):
+            return _mkaff(*_aff(v))
+        raise _CUnrec("dereference of %r" % (v,))
+
+    # -- expressions ---------------------------------------------------------------
+    def rv(self, n, env):
+        self.steps += 1
+        if self.steps > self.maxsteps:
+            raise _CUnrec("more than %d evaluation steps" % self.maxsteps)
+        k = n.get("kind")
+        ks = _kids(n)
+        if k in _CASTS:
+            if k == "ImplicitCastExpr" and n.get("castKind") == "LValueToRValue":
+                return self.load(self.lv(ks[0], env))
+            v = self.rv(ks[-1] if k == "CXXFunctionalCastExpr" else ks[0], env)
+            if k == "ConstantExpr" and "value" in n and isinstance(v, int) and str(v) != str(n["value"]):
+                raise AnalysisError("enumerator value %s differs from the NPY_TYPES table (%s)" % (n["value"], v))
+            return v
+        if k == "IntegerLiteral":
+            return int(n.get("value"))
+        if k == "CharacterLiteral":
+            return int(n.get("value"))
+        if k == "CXXBoolLiteralExpr":
+            return int(bool(n.get("value")))
+        if k == "FloatingLiteral":
+            return float(n.get("value"))
+        if k == "StringLiteral":
+            return c_string_literal(n)
+        if k in ("GNUNullExpr", "CXXNullPtrLiteralExpr", "ImplicitValueInitExpr", "CXXScalarValueInitExpr"):
+            return 0
+        if k == "CXXThisExpr":
+            return ("this",)
+        if k == "CXXDefaultArgExpr":
+            return ("default",)
+        if k == "DeclRefExpr":
+            rd = n.get("referencedDecl") or {}
+            if rd.get("kind") == "EnumConstantDecl":
+                return NPY_TYPES.get(rd.get("name"), ("enum", rd.get("name")))
+            if rd.get("kind") in ("VarDecl", "ParmVarDecl"):
+                return self.load(("var", env, rd.get("name")))
+            return ("fn", rd.get("name"))
+        if k in ("MemberExpr", "ArraySubscriptExpr"):
+            return self.load(self.lv(n, env))
+        if k == "UnaryOperator":
+            op = n.get("opcode")
+            if op == "*":
+                return self.load(self.lv(n, env))
+            if op == "&":
+                loc = self.lv(ks[0], env)
+                if loc[0] == "ptr":
+                    return loc[1]
+                if loc[0] == "var":
+                    return _mkaff(("addr", loc[2]), 0)
+                if loc[0] == "mem":
+                    return _mkaff(("addr", "this." + loc[1]), 0)
+                if loc[0] == "elem" and not isinstance(loc[1], (_Vec, _Arr)):
+                    return _mkaff(("addr", ("idx", loc[1], loc[2])), 0)
+                raise _CUnrec("address of %r" % (loc[0],))
+            if op in ("++", "--"):
+                loc = self.lv(ks[0], env)
+                old = self.load(loc)
+                st = _stride(_qt(n))
+                if st == 0:
+                    raise _CUnrec("pointer arithmetic on %s" % _qt(n))
+                d = 1 if op == "++" else -1
+                if isinstance(old, (int, float)):
+                    new = old + d
+                elif st is not None or (isinstance(old, tuple) and old[0] == "aff"):
+                    base, off = _aff(self.ptr(old))
+                    new = _mkaff(base, off + d * (st or 1))
+                else:
+                    new = ("op", "+", old, d)
+                self.store(loc, new)
+                return old if n.get("isPostfix") else new
+            v = self.rv(ks[0], env)
+            if op == "!":
+                return int(not self.truth(v))
+            if isinstance(v, (int, float)):
+                return {"-": lambda: -v, "+": lambda: v, "~": lambda: ~v}[op]()
+            return ("un", op, v)
+        if k == "BinaryOperator":
+            op = n.get("opcode")
+            if op == "=":
+                loc = self.lv(ks[0], env)
+                v = self.rv(ks[1], env)
+                self.store(loc, v)
+                return v
+            if op == ",":
+                self.rv(ks[0], env)
+                return self.rv(ks[1], env)
+            if op in ("&&", "||"):
+                a = self.truth(self.rv(ks[0], env))
+                if a != (op == "&&"):
+                    return int(a)
+                return int(self.truth(self.rv(ks[1], env)))
+            return self.binop(op, self.rv(ks[0], env), self.rv(ks[1], env), n)
+        if k == "CompoundAssignOperator":
+            loc = self.lv(ks[0], env)
+            v = self.binop(n.get("opcode")[:-1], self.load(loc), self.rv(ks[1], env), n)
+            self.store(loc, v)
+            return v
+        if k == "ConditionalOperator":
+            return self.rv(ks[1] if self.truth(self.rv(ks[0], env)) else ks[2], env)
+        if k == "UnaryExprOrTypeTraitExpr":
+            t = (n.get("argType") or {}).get("desugaredQualType") or (n.get("argType") or {}).get("qualType") or (_qt(ks[0]) if ks else "")
+            if n.get("name") == "sizeof" and t in SIZEOF:
+                return SIZEOF[t]
+            raise _CUnrec("sizeof(%s)" % t)
+        if k == "CXXConstructExpr":
+            args = [a for a in ks if a.get("kind") != "CXXDefaultArgExpr"]
+            t = _qt(n)
+            if not args:
+                return _SStream() if "stringstream" in t else ("" if "basic_string" in t else (_Vec() if "vector<" in t else ("obj", t)))
+            if len(args) == 1:
+                return self.rv(args[0], env)
+            return ("obj", t) + tuple(self.rv(a, env) for a in args)
+        if k == "CXXThrowExpr":
+            try:
+                v = self.rv(ks[0], env) if ks else None
+            except _CUnrec:
+                v = None
+            raise _Throw(v)
+        if k in ("CallExpr", "CXXMemberCallExpr"):
+            return self.call(n, env)
+        if k == "CXXOperatorCallExpr":
+            return self.opcall(n, env)
+        if k == "InitListExpr" and len(ks) == 1:
+            return self.rv(ks[0], env)
+        raise _CUnrec("expression %s" % k)
+
+    def opcall(self, n, env):
+        op = cfront.callee_name(n)
+        a = cfront.call_args(n)
+        if op == "operator[]":
+            return self.load(self.lv(n, env))
+        if op == "operator=":
+            loc = self.lv(a[0], env)
+            v = self.rv(a[1], env)
+            self.store(loc, _Vec(v.items) if isinstance(v, _Vec) else v)
+            return v
+        if op == "operator+=":
+            loc = self.lv(a[0], env)
+            v = _cat(self.load(loc), self.rv(a[1], env))
+            self.store(loc, v)
+            return v
+        if op == "operator+":
+            return _cat(self.rv(a[0], env), self.rv(a[1], env))
+        if op in ("operator==", "operator!="):
+            x, y = self.rv(a[0], env), self.rv(a[1], env)
+            if isinstance(x, str) and isinstance(y, str):
+                return int((x == y) == (op == "operator=="))
+            if x == y:
+                return int(op == "operator==")
+            # texts with an unknown part: different when the known prefixes already differ
+            px = x if isinstance(x, str) else (x[1][0] if isinstance(x, tuple) and x[0] == "cat" and isinstance(x[1][0], str) else "")
+            py = y if isinstance(y, str) else (y[1][0] if isinstance(y, tuple) and y[0] == "cat" and isinstance(y[1][0], str) else "")
+            m = min(len(px), len(py))
+            if px[:m] != py[:m] or (isinstance(x, str) and len(py) > len(x)) or (isinstance(y, str) and len(px) > len(y)):
+                return int(op == "operator!=")
+            return ("op", "==" if op == "operator==" else "!=", x, y)
+        if op == "operator<<":
+            x = self.rv(a[0], env)
+            y = self.rv(a[1], env)
+            if isinstance(x, _SStream):
+                x.value = _cat(x.value, str(y) if isinstance(y, (int, float)) and "char" not in _qt(a[1]) else y)
+            return x
+        raise _CUnrec("overloaded %s" % op)
+
+    def call(self, n, env):
+        ks = _kids(n)
+        callee = cfront.strip(ks[0])
+        name = cfront.callee_name(n)
+        args = ks[1:]
+        if n.get("kind") == "CXXMemberCallExpr" and callee.get("kind") == "MemberExpr":
+            base = _kids(callee)
+            if base and cfront.strip(base[0]).get("kind") != "CXXThisExpr":
+                return self.method(name, base[0], args, env, n)
+            fn = self.funcs.get("%s::%s" % (self.cls, name))
+        else:
+            fn = self.funcs.get(name) if name and "::" not in (name or "") else None
+            if fn is not None and fn.get("kind") == "CXXMethodDecl":
+                fn = None
+            if fn is None and callee.get("kind") == "DeclRefExpr":
+                fn = self.by_id.get((callee.get("referencedDecl") or {}).get("id"))      # a helper outside the cached dump (template instance ...)
+        if name is None:
+            raise _CUnrec("indirect call")
+        vals = [self.rv(a, env) for a in args]
+        if fn is not None and name not in self.opaque and cfront.body_of(fn) is not None:
+            return self.run(fn, vals)
+        if fn is None and name not in self.opaque and name not in _LIBC and not name.startswith(("Py", "_Py", "__builtin", "operator")):
+            self.foreign.add(name)          # neither the C library nor a function of the dump at hand
+        return self.external(name, vals)
+
+    def external(self, name, vals):
+        self.nret += 1
+        r = ("ret", name, self.nret)
+        self.events.append(("call", name, tuple(vals), self.mem.get("mData", ("sym", "mData")), r))
+        return r
+
+    def method(self, name, base, args, env, n):
+        loc = self.lv(base, env)
+        o = self.load(loc)
+        vals = [self.rv(a, env) for a in args if a.get("kind") != "CXXDefaultArgExpr"]
+        if isinstance(o, _Vec):
+            if name == "clear":
+                o.items = []
+                return 0
+            if name == "resize" and isinstance(vals[0], int):
+                fill = vals[1] if len(vals) > 1 else ""
+                o.items = (o.items + [fill] * vals[0])[:vals[0]]
+                return 0
+            if name == "size":
+                return len(o.items)
+            if name == "push_back":
+                o.items.append(vals[0])
+                return 0
+            raise _CUnrec("vector::%s" % name)
+        if isinstance(o, _SStream):
+            if name == "str" and not vals:
+                return o.value
+            raise _CUnrec("stringstream::%s" % name)
+        if name in ("c_str", "data"):
+            return o
+        if name in ("size", "length") and isinstance(o, str):
+            return len(o)
+        if name == "empty" and isinstance(o, str):
+            return int(o == "")
+        if name in ("resize", "reserve", "assign", "clear", "append", "push_back") and loc[0] in ("var", "mem"):
+            if name == "clear":
+                self.store(loc, "")
+            elif name in ("append", "push_back"):
+                self.store(loc, _cat(o, vals[0]))
+            elif name != "reserve":
+                self.nret += 1
+                self.store(loc, ("buf", self.nret))
+            return 0
+        return ("mcall", name, o) + tuple(vals)
+
+    def run(self, fn, vals):
+        self.depth += 1
+        if self.depth > 12:
+            raise _CUnrec("call depth")
+        params = [c for c in fn.get("inner", []) if c.get("kind") == "ParmVarDecl"]
+        if len(params) != len(vals):
+            raise _CUnrec("arity of %s" % fn.get("name"))
+        env = {p.get("name"): v for p, v in zip(params, vals)}
+        if fn.get("name") not in self.followed:
+            self.followed.append(fn.get("name"))
+        try:
+            self.exec(cfront.body_of(fn), env)
+            r = 0
+        except _Return as e:
+            r = e.value
+        finally:
+            self.depth -= 1
+        return r
+
+    # -- statements ------------------------------------------------------------------
+    def exec(self, n, env):
+        k = n.get("kind")
+        ks = _kids(n)
+        if k == "CompoundStmt":
+            for s in ks:
+                self.exec(s, env)
+        elif k == "DeclStmt":
+            for d in ks:
+                if d.get("kind") != "VarDecl":
+                    continue
+                init = [c for c in _kids(d) if not c.get("kind", "").endswith("Attr")]
+                q = (d.get("type") or {}).get("qualType", "")
+                if init and d.get("init"):
+                    if q.rstrip().endswith("&") and not q.rstrip().endswith("&&"):
+                        loc = self.lv(init[-1], env)
+                        env[d["name"]] = _Ref(loc) if loc[0] != "val" else loc[1]
+                    else:
+                        v = self.rv(init[-1], env)
+                        env[d["name"]] = _Vec(v.items) if isinstance(v, _Vec) else v
+                else:
+                    t = _qt(d)
+                    env[d["name"]] = _SStream() if "stringstream" in t else ("" if "basic_string" in t else ("undef", d["name"]))
         elif k == "IfStmt":
-            cond = cfront.render(st["inner"][0])
-            if "add_delim" in cond and "mReadAsWhitespace" in cond:
-                # formats[i] += ' ' + mDelim   for entries that are not the bare "%"
-                adds = [x for x in cfront.walk(st) if x.get("kind") == "CXXOperatorCallExpr" and cfront.callee_name(x) == "operator+="]
-                if adds:
-                    rhs = cfront.render(cfront.call_args(adds[0])[1])
-                    suffix = rhs
-    chk.ob("R04.1", "scan-table::evaluated", base == "%" and len(table) >= 10, W, "scan table evaluated: base %r, %d entries %s" % (base, len(table), table))
-    return table, suffix
+            if n.get("hasInit") or n.get("hasVar"):
+                raise _CUnrec("if with initialiser")
+            if self.truth(self.rv(ks[0], env)):
+                self.exec(ks[1], env)
+            elif len(ks) > 2:
+                self.exec(ks[2], env)
+        elif k in ("ForStmt", "WhileStmt", "DoStmt"):
+            inner = n.get("inner") or []
+            if k == "ForStmt":
+                init, _cv, cond, inc, body = (list(inner) + [{}] * 5)[:5]
+                if init and init.get("kind"):
+                    self.exec(init, env)
+            elif k == "WhileStmt":
+                init, cond, inc, body = None, ks[0], None, ks[-1]
+                if len(ks) != 2:
+                    raise _CUnrec("while with a condition variable")
+            else:
+                init, cond, inc, body = None, ks[1], None, ks[0]
+            first = k == "DoStmt"
+            for it in range(400):
+                if not first and cond and cond.get("kind") and not self.truth(self.rv(cond, env)):
+                    break
+                first = False
+                try:
+                    self.exec(body, env)
+                except _Break:
+                    break
+                except _Continue:
+                    pass
+                if inc and inc.get("kind"):
+                    self.rv(inc, env)
+            else:
+                raise _CUnrec("loop does not end within 400 passes on the test shape")
+        elif k == "SwitchStmt":
+            v = self.rv(ks[0], env)
+            if not isinstance(v, int):
+                raise _CUnrec("switch on a symbolic value")
+            seq = []
+            for s in _kids(ks[-1]):
+                labels = []
+                while s.get("kind") in ("CaseStmt", "DefaultStmt"):
+                    labels.append(s)
+                    s = _kids(s)[-1]
+                seq.append((labels, s))
+            start = None
+            for i, (labels, s) in enumerate(seq):
+                if any(l.get("kind") == "CaseStmt" and self.rv(_kids(l)[0], env) == v for l in labels):
+                    start = i
+                    break
+            if start is None:
+                for i, (labels, s) in enumerate(seq):
+                    if any(l.get("kind") == "DefaultStmt" for l in labels):
+                        start = i
+            if start is not None:
+                try:
+                    for labels, s in seq[start:]:
+                        self.exec(s, env)
+                except _Break:
+                    pass
+        elif k == "BreakStmt":
+            raise _Break()
+        elif k == "ContinueStmt":
+            raise _Continue()
+        elif k == "ReturnStmt":
+            raise _Return(self.rv(ks[0], env) if ks else 0)
+        elif k == "NullStmt":
+            pass
+        elif k == "CXXTryStmt":
+            self.exec(ks[0], env)
+        elif k in ("GotoStmt", "LabelStmt", "CXXForRangeStmt"):
+            raise _CUnrec("statement %s" % k)
+        else:
+            self.rv(n, env)
 
 
-def eval_print_table(chk, fn, scan):
-    body = cfront.body_of(fn)
-    table = None
-    for st in body.get("inner", []):
-        txt = cfront.render(st)
-        if "make_scan_formats(" in txt:
-            ok = txt.replace(" ", "") == "make_scan_formats(formats,false)"
-            chk.ob("R04.1", "print-table::starts-from-scan-table-without-delimiter", ok, W, "print formats start as the scan formats without the delimiter suffix (%s)" % txt)
-            table = dict(scan)
-        elif st.get("kind") == "CXXOperatorCallExpr" and cfront.callee_name(st) == "operator=" and table is not None:
-            args = cfront.call_args(st)
-            lhs = cfront.strip(args[0])
-            idx = cfront.render(cfront.call_args(lhs)[1])
-            table[idx] = c_string_literal(args[1])
-    if table is None:
-        raise AnalysisError("make_print_formats does not start from make_scan_formats")
-    return table
+class _Trace:
+    def __init__(self, cx, end, value):
+        self.events, self.end, self.value, self.mem, self.dec, self.followed = cx.events, end, value, cx.mem, list(cx.dec), cx.followed
+        self.decided = dict(cx.decided)
+
+    def calls(self, *names):
+        return [e for e in self.events if e[0] == "call" and (not names or e[1] in names)]
+
+    def stores(self):
+        return [e for e in self.events if e[0] == "store"]
 
 
-def switch_arms(chk, fn):
-    sw = [x for x in cfront.walk(cfront.body_of(fn)) if x.get("kind") == "SwitchStmt"]
-    if len(sw) != 1:
-        raise AnalysisError("switch over the numpy type not found in WriteNumberAsAscii")
-    arms = {}
-    for c in sw[0]["inner"][-1].get("inner", []):
-        if c.get("kind") != "CaseStmt":
+_LIBC = {"fgetc", "getc", "ungetc", "fputc", "putc", "fputs", "fprintf", "fscanf", "sscanf", "fwrite", "fread", "fflush", "feof", "ferror", "fseek", "ftell",
+         "rewind", "snprintf", "sprintf", "printf", "strlen", "memcpy", "memset", "memmove", "strcmp", "strncmp", "strncpy", "isspace", "malloc", "free"}
+
+
+class _TU:
+    """the functions of the records translation unit.  It starts from the cached dump (the Records class only, declaration ids dropped); when
+    a run meets a call that leaves it -- a file-local helper, an instance of a function template: the call site names those by clang's
+    declaration id only, and ids are comparable only within one clang run -- the whole TU is dumped once more, decoded declaration by
+    declaration, and every function of the repository's files is taken from there, with ids (`by_id`)."""
+
+    def __init__(self, cached):
+        self.funcs, self.by_id, self.tried = cached, {}, False
+
+    def upgrade(self):
+        if self.tried:
+            return False
+        self.tried = True
+        try:
+            decls, by_id = _raw_universe()
+            funcs = cfront.functions(decls)
+        except (_CUnrec, AnalysisError, OSError):
+            return False
+        if any(k not in funcs for k in self.funcs if k.startswith("Records::")):
+            return False
+        self.funcs, self.by_id = funcs, by_id
+        return True
+
+
+def _raw_universe():
+    import json
+    import os
+    import subprocess
+    from vcheck.core import REPO
+    spec = cfront.TUS["records"]
+    np_inc, py_inc = cfront._py_includes()
+    cmd = ["clang++", "-std=c++11", "-fsyntax-only", "-w", "-Xclang", "-ast-dump=json", "-I" + np_inc, "-I" + py_inc]
+    cmd += ["-I" + os.path.join(REPO, d) for d in spec["inc"]] + [os.path.join(REPO, spec["path"])]
+    pr = subprocess.run(cmd, capture_output=True, text=True)
+    if pr.returncode != 0:
+        raise _CUnrec("clang reported errors: %s" % pr.stderr[-300:])
+    out = pr.stdout
+    root = os.path.abspath(REPO)
+    decls, by_id, cur = [], {}, None
+    dec = json.JSONDecoder()
+    try:
+        i = out.index("[", out.index('"inner"')) + 1
+        while True:
+            while out[i] in " \n\r\t,":
+                i += 1
+            if out[i] == "]":
+                break
+            doc, i = dec.raw_decode(out, i)
+            cur = cfront._loc_file(doc) or cur          # clang prints the file only where it changes
+            if cur and os.path.abspath(cur).startswith(root):
+                decls.append(doc)
+                for x in cfront.walk(doc):
+                    if x.get("kind") in cfront.FUNC_KINDS and cfront.has_body(x):
+                        by_id[x.get("id")] = x
+    except (ValueError, IndexError) as e:
+        raise _CUnrec("clang's dump could not be decoded: %s" % e)
+    return decls, by_id
+
+
+def c_paths(tu, fname, args, mem, opaque=(), max_paths=400):
+    """every run of fname(*args) over the outcomes of the tests on symbolic data (depth first, `true` first)"""
+    prefix = []
+    n = 0
+    while n < max_paths:
+        cx = _CX(tu.funcs, mem, opaque, prefix, by_id=tu.by_id)
+        try:
+            v = cx.run(tu.funcs[fname], list(args))
+            tr = _Trace(cx, "return", v)
+        except _Throw as e:
+            tr = _Trace(cx, "throw", e.value)
+        except (_Break, _Continue):
+            raise _CUnrec("break/continue outside a loop")
+        if n == 0 and cx.foreign and tu.upgrade():
+            continue                                    # the run left the cached dump: once more on the full translation unit
+        n += 1
+        yield tr
+        dec = tr.dec
+        i = len(dec) - 1
+        while i >= 0 and not dec[i]:
+            i -= 1
+        if i < 0:
+            return
+        prefix = dec[:i] + [False]
+    raise _CUnrec("more than %d paths" % max_paths)
+
+
+_SYM = lambda n: ("sym", n)      # noqa: E731
+_D, _S = NPY_TYPES["NPY_DOUBLE"], NPY_TYPES["NPY_STRING"]
+_FPTR, _DATA = _mkaff(_SYM("mFptr"), 0), _mkaff(_SYM("mData"), 0)      # the open stream and the data cursor: pointers, not null
+
+
+def _mem(**kw):
+    m = dict(mDebug=0, mBracketArrays=0, mReadAsWhitespace=0, mIgnoreNull=0, mPadNull=0, mNfields=3, mNrows=2, mFptr=_FPTR, mData=_DATA,
+             mNel=_Arr(3), mSizes=_Arr(24), mTypeNums=_Arr(_D), mNdim=_Arr(0))
+    m.update(kw)
+    return m
+
+
+def _group(chk, rule_keys, fn):
+    """run fn(); when the interpreter gives up, every instance of the group is reported as not recognised"""
+    try:
+        return fn()
+    except AnalysisError:
+        raise
+    except Exception as e:          # _CUnrec, or an AST shape the interpreter trips over: no verdict for this group
+        for rule, key, msg in rule_keys:
+            chk.ob(rule, key, None, W, "%s [bounded execution gave up: %s%s]" % (msg, "" if isinstance(e, _CUnrec) else type(e).__name__ + " ", e))
+        return None
+
+
+def _one(tu, fname, args, mem, opaque=()):
+    trs = list(c_paths(tu, fname, args, mem, opaque, max_paths=4))
+    if len(trs) != 1:
+        raise _CUnrec("%s forks on symbolic data" % fname)
+    return trs[0]
+
+
+def _split(v):
+    """(known text, unknown pieces) of a string value"""
+    if isinstance(v, str):
+        return v, ()
+    if isinstance(v, tuple) and v[0] == "cat" and isinstance(v[1][0], str):
+        return v[1][0], tuple(v[1][1:])
+    return None, (v,)
+
+
+def format_tables(chk, tu):
+    """the scan table without the suffix, the print table ({enumerator: text}) and the suffix [blank text, pieces]"""
+    keys = [("R04.1", "scan-table::evaluated", "the scan format table is evaluated"),
+            ("R04.1", "print-table::starts-from-scan-table-without-delimiter", "print formats start as the scan formats without the delimiter suffix"),
+            ("R04.4", "reader::scan-suffix-consumes-delimiter", "outside whitespace mode the scan format ends with the delimiter so that it is consumed with the number"),
+            ("R04.5", "reader::scan-suffix-whitespace-directive", "the scan suffix has no whitespace directive before the delimiter")]
+
+    def table(fname, args, **mem):
+        v = _Vec()
+        tr = _one(tu, fname, [v] + args, _mem(**mem))
+        if tr.end != "return":
+            raise _CUnrec("%s throws" % fname)
+        return v.items
+
+    def go():
+        return (table("Records::make_scan_formats", [0]), table("Records::make_scan_formats", [1]), table("Records::make_scan_formats", [1], mReadAsWhitespace=1),
+                table("Records::make_print_formats", []), table("Records::make_print_formats", [], mReadAsWhitespace=1))
+    r = _group(chk, keys, go)
+    if r is None:
+        raise AnalysisError("the format tables could not be evaluated")
+    plain, full, ws, prt, prt_ws = r
+    idx = {n: NPY_TYPES[n] for n in NEEDED}
+    okt = all(len(t) > max(idx.values()) for t in (plain, full, ws, prt)) and all(isinstance(plain[i], str) for i in idx.values())
+    chk.ob("R04.1", "scan-table::evaluated", okt, W, "scan table evaluated: %d entries %s" % (len(plain), {n: plain[i] for n, i in idx.items()} if okt else plain))
+    if not okt:
+        raise AnalysisError("the scan format table has no text for the types of the property")
+    okp = all(isinstance(prt[i], str) for i in idx.values()) and prt == prt_ws
+    chk.ob("R04.1", "print-table::starts-from-scan-table-without-delimiter", okp, W,
+           "print formats are plain texts: no delimiter suffix, the same in whitespace mode (%s)" % {n: prt[i] for n, i in idx.items()})
+    sufs = set()
+    for n, i in idx.items():
+        t, rest = _split(full[i])
+        sufs.add((t[len(plain[i]):] if t is not None and t.startswith(plain[i]) else None, rest))
+    suf = next(iter(sufs)) if len(sufs) == 1 else (None, ())
+    has_delim = suf[0] is not None and suf[1] == (_SYM("mDelim"),) and all(ws[i] == plain[i] for i in idx.values())
+    shown = "%r + %s" % (suf[0], " + ".join("mDelim" if p == _SYM("mDelim") else str(p) for p in suf[1])) if len(sufs) == 1 else str(sorted(sufs, key=str))
+    chk.ob("R04.4", "reader::scan-suffix-consumes-delimiter", has_delim, W,
+           "outside whitespace mode every scan format is the plain format followed by the delimiter, so that it is consumed with the number; in whitespace mode "
+           "there is no suffix (suffix: %s)" % shown)
+    leading_ws = bool(suf[0]) and suf[0][:1].isspace()
+    chk.ob("R04.5", "reader::scan-suffix-whitespace-directive", not leading_ws, W,
+           "the scan suffix is `%s`: a whitespace directive before the delimiter also consumes the end of line after the last number of a row *and* any leading "
+           "blanks of the next row, so a fixed-width string field with leading spaces that starts a row is read shifted" % shown)
+    names = {i: n for n, i in NPY_TYPES.items()}
+    return ({names[i]: v for i, v in enumerate(plain) if i in names}, {names[i]: v for i, v in enumerate(prt) if i in names})
+
+
+def switch_arms(chk, tu):
+    """{enumerator: {'cast': [C type read from the buffer], 'fmt_index': [enumerator of the format entry]}} from running the number writer once per type"""
+    names = {i: n for n, i in NPY_TYPES.items()}
+    buf = _mkaff(_SYM("buffer"), 0)
+    entry = "Records::WriteNumberAsAscii"
+    arms, followed = {}, []
+    for name in NEEDED:
+        try:
+            trs = list(c_paths(tu, entry, [buf, NPY_TYPES[name]], _mem(), max_paths=8))
+        except AnalysisError:
+            raise
+        except Exception as e:
+            arms[name] = {"cast": [], "fmt_index": [], "unrec": "bounded execution gave up: %s" % e}
             continue
-        lab = [y.get("referencedDecl", {}).get("name") for y in cfront.walk(c["inner"][0]) if y.get("kind") == "DeclRefExpr"]
-        # the dereference `*(T*)buffer` carries the desugared element type
-        casts = [(x.get("type", {}).get("desugaredQualType") or x.get("type", {}).get("qualType")) for x in cfront.walk(c)
-                 if x.get("kind") == "UnaryOperator" and x.get("opcode") == "*" and x.get("inner") and cfront.strip(x["inner"][0]).get("kind") == "CStyleCastExpr"
-                 or (x.get("kind") == "UnaryOperator" and x.get("opcode") == "*" and any(y.get("kind") == "CStyleCastExpr" for y in cfront.walk(x)))]
-        idx = [cfront.render(cfront.call_args(y)[1]) for y in cfront.walk(c) if y.get("kind") == "CXXOperatorCallExpr" and cfront.callee_name(y) == "operator[]"]
-        if lab:
-            arms[lab[0]] = {"cast": [t.replace(" *", "").replace("*", "").strip() for t in casts], "fmt_index": idx}
-    sibs = sw[0]["inner"][-1].get("inner", [])
-    di = [i for i, c in enumerate(sibs) if c.get("kind") == "DefaultStmt"]
-    throws = len(di) == 1 and any(x.get("kind") == "CXXThrowExpr" for c in sibs[di[0]:] for x in cfront.walk(c))
-    chk.ob("R04.2", "switch::unsupported-type-raises", bool(throws), W, "a type without an arm raises instead of writing garbage")
+        trs = [t for t in trs if t.end == "return"]
+        if not trs:
+            continue                    # no arm: the type falls through to the part that raises
+        pr = [t.calls() for t in trs]
+        followed += [f for t in trs for f in t.followed if f not in followed]
+        a = {"cast": [], "fmt_index": [], "unrec": None}
+        if len(trs) != 1 or len(pr[0]) != 1 or pr[0][0][1] != "fprintf" or len(pr[0][0][2]) != 3:
+            a["unrec"] = "the arm does not make exactly one fprintf call with one value: %s" % [[c[1] for c in p] for p in pr]
+        else:
+            f, fmt, val = pr[0][0][2]
+            if isinstance(val, tuple) and val[0] == "load" and val[1] == buf:
+                a["cast"] = [val[2]]
+            else:
+                a["unrec"] = "the value printed is %s" % _show(val)
+            if isinstance(fmt, tuple) and fmt[0] == "idx" and fmt[1] == _SYM("mPrintFormats"):
+                a["fmt_index"] = [names.get(fmt[2], fmt[2])]
+        arms[name] = a
+    for f in followed:
+        chk.analysed_unit("Records::" + f if "Records::" + f in tu.funcs else f)
+
+    def bogus():
+        trs = list(c_paths(tu, entry, [buf, 99], _mem(), max_paths=8))
+        return all(t.end == "throw" and not t.calls(*_WRITERS) for t in trs)
+    r = _group(chk, [("R04.2", "switch::unsupported-type-raises", "a type without an arm raises instead of writing garbage")], bogus)
+    if r is not None:
+        chk.ob("R04.2", "switch::unsupported-type-raises", r, W, "a type without an arm raises instead of writing garbage")
     return arms
 
 
@@ -156,11 +980,16 @@ def tables(chk, scan, prt, arms):
     for idx, code in NEEDED.items():
         tag = "%s(%s)" % (code, idx)
         # coverage
-        chk.ob("R04.2", tag + "::has-arm-print-scan", idx in arms and idx in prt and idx in scan, W, "type %s has a switch arm, a print and a scan format" % code)
-        if not (idx in arms and idx in prt and idx in scan):
+        have = idx in arms and isinstance(prt.get(idx), str) and isinstance(scan.get(idx), str)
+        chk.ob("R04.2", tag + "::has-arm-print-scan", have, W, "type %s has a switch arm, a print and a scan format (print %r, scan %r)" % (code, prt.get(idx), scan.get(idx)))
+        if not have:
+            for k in ("single-directive", "print-matches-dereferenced-type", "scan-writes-field-size", "scan-not-suppressed"):
+                chk.ob("R04.1", tag + "::" + k, None, W, "not evaluated: type %s has no arm or no print / scan format text" % code)
             continue
         arm = arms[idx]
-        chk.ob("R04.2", tag + "::arm-uses-own-format", arm["fmt_index"] == ["type"] or arm["fmt_index"] == [idx], W, "the arm formats with the table entry of its own type (%s)" % arm["fmt_index"])
+        un = arm.get("unrec")
+        chk.ob("R04.2", tag + "::arm-uses-own-format", (arm["fmt_index"] == [idx]) if (arm["fmt_index"] or not un) else None, W,
+               "the arm formats with the table entry of its own type (%s)" % (arm["fmt_index"] or un))
         pd = printf_directives(prt[idx])
         sd = printf_directives(scan[idx])
         ok1 = len(pd["directives"]) == 1 and pd["literal_prefix"] == "" and pd["suffix"] == ""
@@ -170,15 +999,19 @@ def tables(chk, scan, prt, arms):
             continue
         p, s = pd["directives"][0], sd["directives"][0]
         ctype = arm["cast"][0] if arm["cast"] else None
+        known = ctype is not None or not un          # False: the arm was not recognised, no verdict on what it dereferences
         if code.startswith(("i", "u")):
             okp = ctype in CTYPE_OF.get((p["length"], p["conv"]), set())
-            chk.ob("R04.1", tag + "::print-matches-dereferenced-type", okp, W, "print %r formats a %s (the arm dereferences %s)" % (prt[idx], sorted(CTYPE_OF.get((p["length"], p["conv"]), [])), ctype))
-            chk.ob("R04.1", tag + "::cast-size-matches-field", SIZEOF.get(ctype) == int(code[1]), W, "the arm reads %s bytes (%s) for a %s field" % (SIZEOF.get(ctype), ctype, code))
+            chk.ob("R04.1", tag + "::print-matches-dereferenced-type", okp if known else None, W,
+                   "print %r formats a %s (the arm dereferences %s)" % (prt[idx], sorted(CTYPE_OF.get((p["length"], p["conv"]), [])), ctype or un))
+            chk.ob("R04.1", tag + "::cast-size-matches-field", (SIZEOF.get(ctype) == int(code[1])) if known else None, W,
+                   "the arm reads %s bytes (%s) for a %s field" % (SIZEOF.get(ctype), ctype or un, code))
             chk.ob("R04.1", tag + "::signedness", (p["conv"] == "d") == code.startswith("i") and (s["conv"] == "d") == code.startswith("i"), W, "signed types use d, unsigned u (print %s, scan %s)" % (p["conv"], s["conv"]))
             chk.ob("R04.1", tag + "::no-width-or-precision", p["width"] is None and p["prec"] is None and s["width"] is None, W, "integers are written in full and scanned without a width limit")
         else:
-            okp = p["conv"] in "gGe" and p["length"] in ("", "l") and ctype == ("float" if code == "f4" else "double")
-            chk.ob("R04.1", tag + "::print-matches-dereferenced-type", okp, W, "print %r formats a %s (promoted to double)" % (prt[idx], ctype))
+            okf = p["conv"] in "gGe" and p["length"] in ("", "l")
+            okp = okf and ctype == ("float" if code == "f4" else "double")
+            chk.ob("R04.1", tag + "::print-matches-dereferenced-type", okp if (known or not okf) else None, W, "print %r formats a %s (promoted to double)" % (prt[idx], ctype or un))
             need = 7 if code == "f4" else 16
             chk.ob("R04.1", tag + "::significant-digits", p["prec"] is not None and p["prec"] >= need, W, "%s significant digits requested, >= %d needed for %s" % (p["prec"], need, code))
         okz = SCAN_SIZE.get((s["length"], s["conv"])) == int(code[1])
@@ -187,113 +1020,999 @@ def tables(chk, scan, prt, arms):
     chk.ob("R04.2", "NPY_STRING::print-format", prt.get("NPY_STRING") == "%s", W, "strings have a print format entry (they are written byte-wise by WriteStringAsAscii)")
 
 
-def strings(chk, cfun):
-    ws = cfun["Records::WriteStringAsAscii"]
-    rows = [(cfront.render(x["inner"][0]) if x.get("kind") == "BinaryOperator" else x.get("name"), x) for x in cfront.walk(cfront.body_of(ws))
-            if x.get("kind") == "VarDecl" or (x.get("kind") == "BinaryOperator" and x.get("opcode") == "=")]
-    slen = [cfront.render([c for c in x.get("inner", []) if isinstance(c, dict) and c.get("kind")][-1]) for n, x in rows if n == "slen" and x.get("kind") == "VarDecl"]
-    chk.ob("R04.1", "string::written-width", slen == ["(mSizes[fnum] / mNel[fnum])"], W, "each string element is written as size/nel bytes (%s)" % slen)
-    fors = [x for x in cfront.walk(cfront.body_of(ws)) if x.get("kind") == "ForStmt"]
-    ok = len(fors) == 1 and cfront.render(fors[0]["inner"][2]) == "(i < slen)"
-    chk.ob("R04.1", "string::writes-every-byte", ok, W, "one byte is written per position i < slen")
-    # only the opt-in flags may shorten / alter the bytes
-    ccfg = cfront.CCFG(ws)
-    view = ccfg.view()
-    brk = [n for n in ccfg.nodes if n.kind == "stmt" and n.label == "break"]
-    okb = all(any("mIgnoreNull" in cfront.render(b.c) for b, lab in view.controlling_branches(n)) for n in brk)
-    chk.ob("R04.1", "string::early-stop-only-with-ignorenull", okb, W, "the byte loop stops early only under the opt-in ignorenull flag")
-    alt = [n for n in ccfg.nodes if n.kind == "stmt" and isinstance(n.c, dict) and cfront.render(n.c) == "(c = ' ')"]
-    oka = all(any("mPadNull" in cfront.render(b.c) for b, lab in view.controlling_branches(n)) for n in alt)
-    chk.ob("R04.1", "string::bytes-altered-only-with-padnull", oka, W, "a byte is replaced only under the opt-in padnull flag")
-    rb = cfun["Records::read_ascii_bytes"]
-    sz = [cfront.render([c for c in x.get("inner", []) if isinstance(c, dict) and c.get("kind")][-1]) for x in cfront.walk(cfront.body_of(rb)) if x.get("kind") == "VarDecl" and x.get("name") == "size_per_el"]
-    chk.ob("R04.1", "string::read-width-equals-written-width", sz == ["(mSizes[colnum] / mNel[colnum])"], W, "each string element is read as size/nel raw bytes: the same expression as the writer (%s)" % sz)
-    fors = [x for x in cfront.walk(cfront.body_of(rb)) if x.get("kind") == "ForStmt"]
-    ok = len(fors) == 2 and cfront.render(fors[0]["inner"][2]) == "(el < mNel[colnum])" and cfront.render(fors[1]["inner"][2]) == "(i < size_per_el)"
-    chk.ob("R04.1", "string::read-loops", ok, W, "for each element, size_per_el bytes are read")
-    # exactly one separator consumed per element: one fgetc at the element loop level after the byte loop
-    outer = fors[0]["inner"][-1] if fors else {}
-    top = [cfront.render(s) for s in outer.get("inner", []) if s.get("kind") != "ForStmt"]
-    chk.ob("R04.4", "string::one-separator-consumed-per-element", top == ["(c = fgetc(mFptr))"], W, "after each string element exactly one character (delimiter or end of line) is consumed (%s)" % top)
-    st = [cfront.render(x) for x in cfront.walk(fors[1]["inner"][-1]) if x.get("kind") == "BinaryOperator" and x.get("opcode") == "="] if len(fors) == 2 else []
-    chk.ob("R04.1", "string::bytes-stored-unmodified", "(*buff = c)" in st, W, "the bytes read are stored as they are")
+def _all(vs):
+    vs = list(vs)
+    return bool(vs) and all(vs)
 
 
-def delimiters(chk, cfun, suffix):
-    wf = cfun["Records::WriteField"]
-    ifs = [(cfront.render(x["inner"][0]), [cfront.render(c) for c in cfront.calls_in(x["inner"][1])]) for x in cfront.walk(cfront.body_of(wf)) if x.get("kind") == "IfStmt"]
-    ifs = [(cond, [c for c in cs if c.startswith("fprintf")]) for cond, cs in ifs]
-    el = [c for cond, c in ifs if cond == "(el < (nel - 1))"]
-    fd = [c for cond, c in ifs if cond == "(fnum < (mNfields - 1))"]
-    want = ['fprintf(mFptr, "%s", mDelim.c_str())']
-    chk.ob("R04.4", "writer::delimiter-between-elements", el == [want], W, "the delimiter is written between the elements of a sub-array field, not after the last (%s)" % el)
-    chk.ob("R04.4", "writer::delimiter-between-fields", fd == [want], W, "the delimiter is written between fields, not after the last (%s)" % fd)
-    adv = [cfront.render(x) for x in cfront.walk(cfront.body_of(wf)) if x.get("kind") == "CompoundAssignOperator"]
-    chk.ob("R04.4", "writer::cursor-advances-by-element-size", adv == ["(mData += elsize)"], W, "the data cursor advances by one element per element written (%s)" % adv)
-    es = [cfront.render([c for c in x.get("inner", []) if isinstance(c, dict) and c.get("kind")][-1]) for x in cfront.walk(cfront.body_of(wf)) if x.get("kind") == "VarDecl" and x.get("name") == "elsize"]
-    chk.ob("R04.4", "writer::element-size", es == ["(mSizes[fnum] / nel)"], W, "element size is field size / number of elements")
-    wr = cfun["Records::WriteRows"]
-    fors = [x for x in cfront.walk(cfront.body_of(wr)) if x.get("kind") == "ForStmt"]
-    ok = len(fors) == 2 and cfront.render(fors[0]["inner"][2]) == "(row < mNrows)" and cfront.render(fors[1]["inner"][2]) == "(fnum < mNfields)"
-    chk.ob("R04.4", "writer::all-rows-all-fields", ok, W, "every field of every row is written")
-    if fors:
-        top = [cfront.render(s) for s in fors[0]["inner"][-1].get("inner", []) if s.get("kind") not in ("ForStmt",)]
-        chk.ob("R04.4", "writer::newline-per-row", top == ["fputc('\\n', mFptr)"], W, "one newline ends each row (%s)" % top)
-    # reader for numbers
-    rt = cfun["Records::read_from_text_column"]
-    ccfg = cfront.CCFG(rt)
-    view = ccfg.view()
-    fg = [n for n in ccfg.nodes for c in cfront.node_calls(n) if cfront.callee_name(c) == "fgetc"]
-    ok = len(fg) == 1 and [cfront.render(b.c) for b, lab in view.controlling_branches(fg[0]) if lab == "T"][:1] == ["mReadAsWhitespace"]
-    chk.ob("R04.4", "reader::whitespace-mode-consumes-one-separator", ok, W, "in whitespace mode one separator is consumed after a number (the scan format has no suffix there)")
-    disp = [(cfront.render(b.c), lab, cfront.callee_name(c)) for n in ccfg.nodes for c in cfront.node_calls(n) if cfront.callee_name(c) in ("read_ascii_bytes", "scan_column_values") for b, lab in view.controlling_branches(n)[:1]]
-    chk.ob("R04.4", "reader::string-vs-number-dispatch", sorted(disp) == sorted([("(mTypeNums[colnum] == NPY_STRING)", "T", "read_ascii_bytes"), ("(mTypeNums[colnum] == NPY_STRING)", "F", "scan_column_values")]), W, "strings are read byte-wise, everything else by formatted scan (%s)" % disp)
-    sc = cfun["Records::scan_column_values"]
-    scans = [cfront.render(c) for c in cfront.calls_in(cfront.body_of(sc)) if cfront.callee_name(c) == "fscanf"]
-    chk.ob("R04.4", "reader::scan-uses-type-format", scans == ["fscanf(mFptr, mScanFormats[type_num].c_str(), buff)"], W, "numbers are scanned with the scan format of their type into the output element (%s)" % scans)
-    adv = [cfront.render(x) for x in cfront.walk(cfront.body_of(sc)) if x.get("kind") == "CompoundAssignOperator"]
-    chk.ob("R04.4", "reader::cursor-advances-by-element-size", adv == ["(buff += (mSizes[fnum] / mNel[fnum]))"], W, "the output cursor advances by one element per scanned element (%s)" % adv)
-    # the suffix
-    txt = (suffix or "").replace(" ", "")
-    has_delim = "mDelim" in txt
-    chk.ob("R04.4", "reader::scan-suffix-consumes-delimiter", has_delim, W, "outside whitespace mode the scan format ends with the delimiter so that it is consumed with the number (suffix expression: %s)" % suffix)
-    leading_ws = txt.startswith("(''+") or txt.startswith("''+") or "' '" in (suffix or "").split("mDelim")[0]
-    chk.ob("R04.5", "reader::scan-suffix-whitespace-directive", not leading_ws, W,
-           "the scan suffix is `%s`: a whitespace directive before the delimiter also consumes the end of line after the last number of a row *and* any leading "
-           "blanks of the next row, so a fixed-width string field with leading spaces that starts a row is read shifted" % suffix)
+def strings(chk, tu):
+    # ---- writer: run on two shapes (12 bytes / 4 elements = 3 per element, 10 / 2 = 5) with the NUL flags off and on
+    wkeys = [("R04.1", "string::written-width", "each string element is written as size/nel bytes"),
+             ("R04.1", "string::writes-every-byte", "one byte is written per position i < slen"),
+             ("R04.1", "string::early-stop-only-with-ignorenull", "the byte loop stops early only under the opt-in ignorenull flag"),
+             ("R04.1", "string::bytes-altered-only-with-padnull", "a byte is replaced only under the opt-in padnull flag")]
+    data = _SYM("mData")
+
+    def writer():
+        res = {}
+        for size, nel in ((12, 4), (10, 2)):
+            for ign in (0, 1):
+                for pad in (0, 1):
+                    runs = []
+                    for tr in c_paths(tu, "Records::WriteStringAsAscii", [1], _mem(mSizes=_Arr(size), mNel=_Arr(nel), mIgnoreNull=ign, mPadNull=pad), max_paths=300):
+                        if tr.end != "return":
+                            continue
+                        out = tr.calls(*_WRITERS)
+                        if any(c[1] not in ("fputc", "putc") or len(c[2]) != 2 for c in out) or tr.stores() or tr.calls() != out:
+                            raise _CUnrec("the string writer does something else than fputc: %s" % sorted({c[1] for c in tr.calls()}))
+                        runs.append(([c[2][0] for c in out], tr))
+                        if not ign and len(out) != size // nel:
+                            break               # one run of the wrong width decides; the other outcomes of the data tests need not be enumerated
+                    res[(size // nel, ign, pad)] = runs
+        return res
+    res = _group(chk, wkeys, writer)
+    if res is not None:
+        byte = lambda i: ("load", _mkaff(data, i), "char")      # noqa: E731
+        nul = lambda tr, i: tr.decided.get(("op", "==", byte(i), 0))      # noqa: E731
+        full = {k: _all(len(b) == k[0] for b, tr in runs) for k, runs in res.items()}
+        widths = sorted({len(b) for k, runs in res.items() if not k[1] for b, tr in runs})
+        chk.ob("R04.1", "string::written-width", _all(v for k, v in full.items() if not k[1]), W,
+               "each string element is written as size/nel bytes (bytes written on the shapes 12/4 and 10/2: %s)" % widths)
+        inorder = _all(all(v in (byte(i), 32) for i, v in enumerate(b)) for k, runs in res.items() for b, tr in runs)
+        chk.ob("R04.1", "string::writes-every-byte", inorder and _all(v for k, v in full.items() if not k[1]), W, "the i-th byte written is the i-th byte of the element, for every i < size/nel")
+        # with ignorenull the output may stop, but only at a NUL byte
+        stops = _all(len(b) == k[0] or nul(tr, len(b)) is True for k, runs in res.items() if k[1] for b, tr in runs)
+        chk.ob("R04.1", "string::early-stop-only-with-ignorenull", _all(v for k, v in full.items() if not k[1]) and stops, W,
+               "the byte loop stops early only under the opt-in ignorenull flag, and then only at a NUL byte")
+        plain = _all(all(v == byte(i) for i, v in enumerate(b)) for k, runs in res.items() if not k[2] for b, tr in runs)
+        padded = _all(all(v == byte(i) or (v == 32 and nul(tr, i) is True) for i, v in enumerate(b)) for k, runs in res.items() if k[2] for b, tr in runs)
+        chk.ob("R04.1", "string::bytes-altered-only-with-padnull", plain and padded, W, "a byte is replaced (by a blank) only under the opt-in padnull flag, and then only a NUL byte")
+    # ---- reader
+    rkeys = [("R04.1", "string::read-width-equals-written-width", "each string element is read as size/nel raw bytes: the same width as the writer"),
+             ("R04.1", "string::read-loops", "for each element, size_per_el bytes are read"),
+             ("R04.4", "string::one-separator-consumed-per-element", "after each string element exactly one character (delimiter or end of line) is consumed"),
+             ("R04.1", "string::bytes-stored-unmodified", "the bytes read are stored as they are")]
+    buf = _SYM("buff")
+
+    def reader():
+        out = []
+        for size, nel in ((12, 4), (10, 2)):
+            for tr in c_paths(tu, "Records::read_ascii_bytes", [1, _mkaff(buf, 0)], _mem(mSizes=_Arr(size), mNel=_Arr(nel)), max_paths=60):
+                if tr.end != "return":
+                    continue                # a path that raises returns no data
+                if any(c[1] not in ("fgetc", "getc") for c in tr.calls()):
+                    raise _CUnrec("the string reader calls %s" % sorted({c[1] for c in tr.calls()}))
+                out.append((size, nel, tr))
+                if len(out) >= 40:
+                    return out
+        return out
+    res = _group(chk, rkeys, reader)
+    if res is None:
+        return
+    v_width, v_loops, v_sep, v_raw, notes = [], [], [], [], []
+    for size, nel, tr in res:
+        spe = size // nel
+        stores = [(_aff(e[1]), e[2]) for e in tr.stores()]
+        offs = [o if b == buf else None for (b, o), v in stores]
+        # per character read: how often it was stored before the next one was read; a store must write the character read last
+        reads, raw, last = [], True, None
+        for e in tr.events:
+            if e[0] == "call":
+                reads.append(0)
+                last = e[4]
+            elif e[0] == "store":
+                raw = raw and e[2] == last and bool(reads) and reads[-1] == 0
+                if reads:
+                    reads[-1] += 1
+        segs, cur = [], 0                                                    # characters kept between two dropped ones
+        for r in reads:
+            if r:
+                cur += 1
+            else:
+                segs.append(cur)
+                cur = 0
+        v_loops.append(offs == list(range(size)))
+        v_width.append(segs == [spe] * nel and cur == 0)
+        v_sep.append(len(segs) == nel and cur == 0 and len(reads) == nel * (spe + 1))
+        v_raw.append(raw)
+        if not (v_loops[-1] and v_width[-1] and v_sep[-1] and v_raw[-1]):
+            notes.append("shape %d/%d, data tests %s: stored at offsets %s, characters kept between dropped ones %s (+%d), %d read"
+                         % (size, nel, [(_show(t), r) for t, r in tr.decided.items()][:3], offs[:14], segs, cur, len(reads)))
+    extra = (" (%s)" % "; ".join(notes[:2])) if notes else ""
+    chk.ob("R04.1", "string::read-width-equals-written-width", _all(v_width), W, "each string element is read as size/nel raw bytes, the width the writer uses" + extra)
+    chk.ob("R04.1", "string::read-loops", _all(v_loops), W, "for each element, size/nel bytes are read into consecutive positions of the output" + extra)
+    chk.ob("R04.4", "string::one-separator-consumed-per-element", _all(v_sep), W, "after each string element exactly one character (delimiter or end of line) is consumed" + extra)
+    chk.ob("R04.1", "string::bytes-stored-unmodified", _all(v_raw), W, "the bytes read are stored as they are" + extra)
+
+
+def _show(t):
+    if isinstance(t, tuple):
+        if t[0] == "op":
+            return "%s %s %s" % (_show(t[2]), t[1], _show(t[3]))
+        if t[0] == "aff":
+            return "%s+%d" % (_show(t[1]), t[2])
+        if t[0] in ("sym", "addr"):
+            return str(t[1])
+        if t[0] == "load":
+            return "*(%s)" % _show(t[1])
+        if t[0] == "ret":
+            return "%s#%d" % (t[1], t[2])
+        if t[0] == "idx":
+            return "%s[%s]" % (_show(t[1]), _show(t[2]))
+        return "%s(%s)" % (t[0], ", ".join(_show(x) for x in t[1:]))
+    return repr(t) if isinstance(t, str) else str(t)
+
+def _is_delim_out(c):
+    """a stdio call that writes exactly the delimiter string"""
+    d, f = _SYM("mDelim"), _FPTR
+    n, a = c[1], c[2]
+    size = (("mcall", "size", d), ("mcall", "length", d))
+    return (n == "fprintf" and a == (f, "%s", d)) or (n == "fputs" and a == (d, f)) or (n in ("fputc", "putc") and a == (("idx", d, 0), f)) or \
+        (n == "fwrite" and len(a) == 4 and a[0] == d and a[3] == f and ((a[1] == 1 and a[2] in size) or (a[2] == 1 and a[1] in size)))
+
+
+def _is_newline_out(c):
+    f = _FPTR
+    n, a = c[1], c[2]
+    return (n in ("fputc", "putc") and a == (10, f)) or (n == "fputs" and a == ("\n", f)) or (n == "fprintf" and a in ((f, "\n"), (f, "%c", 10), (f, "%s", "\n")))
+
+
+def delimiters(chk, tu):
+    data, fptr = _SYM("mData"), _FPTR
+    wkeys = [("R04.4", "writer::delimiter-between-elements", "the delimiter is written between the elements of a sub-array field, not after the last"),
+             ("R04.4", "writer::delimiter-between-fields", "the delimiter is written between fields, not after the last"),
+             ("R04.4", "writer::cursor-advances-by-element-size", "the data cursor advances by one element per element written"),
+             ("R04.4", "writer::element-size", "element size is field size / number of elements"),
+             ("R04.4", "writer::string-vs-number-dispatch", "string elements go to the byte writer, all others to the formatted writer of their type")]
+
+    def field():
+        out = []
+        for size, nel in ((24, 3), (12, 4)):
+            for typ in (_D, _S):
+                for fnum in (0, 1, 2):
+                    tr = _one(tu, "Records::WriteField", [fnum], _mem(mSizes=_Arr(size), mNel=_Arr(nel), mTypeNums=_Arr(typ)),
+                              opaque=("WriteStringAsAscii", "WriteNumberAsAscii"))
+                    if tr.end != "return" or tr.stores():
+                        raise _CUnrec("WriteField throws or stores on the test shape")
+                    toks = []
+                    for c in tr.calls():
+                        if c[1] == "WriteNumberAsAscii" and len(c[2]) == 2:
+                            toks.append(("E", "num", _aff(c[2][0]), c[2][1], _aff(c[3])))
+                        elif c[1] == "WriteStringAsAscii" and len(c[2]) == 1:
+                            toks.append(("E", "str", _aff(c[3]), c[2][0], _aff(c[3])))
+                        elif _is_delim_out(c):
+                            toks.append(("D",))
+                        else:
+                            raise _CUnrec("WriteField calls %s(%s), which is neither an element writer nor an output of the delimiter" % (c[1], ", ".join(_show(a) for a in c[2])))
+                    out.append((size, nel, typ, fnum, toks, _aff(tr.mem.get("mData"))))
+        return out
+    res = _group(chk, wkeys, field)
+    if res is not None:
+        v_el, v_fd, v_cur, v_sz, v_disp, notes, trail = [], [], [], [], [], [], {}
+        for size, nel, typ, fnum, toks, end in res:
+            kinds = "".join(t[0] for t in toks)
+            els = [t for t in toks if t[0] == "E"]
+            body = kinds.rstrip("D")
+            trail[(size, typ, fnum)] = len(kinds) - len(body)
+            # E D E D E up to the last element; what follows it in the last field is a delimiter after the last element
+            v_el.append(body == "D".join("E" * nel) and (fnum < 2 or kinds == body))
+            v_cur.append([t[2] for t in els] == [(data, i * (size // nel)) for i in range(nel)] and all(t[2] == t[4] for t in els) and end == (data, size))
+            v_sz.append([t[2][1] for t in els] == [i * (size // nel) for i in range(nel)])
+            v_disp.append(all((t[1] == "str" and t[3] == fnum) if typ == _S else (t[1] == "num" and t[3] == typ) for t in els) and bool(els))
+            if not (v_el[-1] and v_cur[-1] and v_sz[-1] and v_disp[-1]):
+                notes.append("field %d of 3, %d elements of %d bytes, %s: output %s at offsets %s, cursor ends at +%s"
+                             % (fnum, nel, size // nel, "string" if typ == _S else "double", kinds, [t[2][1] for t in els], end[1]))
+        # a field that is not the last writes exactly one delimiter more than the last field does
+        v_fd = [trail[(sz, ty, f)] - trail[(sz, ty, 2)] == 1 for (sz, ty, f) in trail if f < 2]
+        if not all(v_fd):
+            notes.insert(0, "delimiters after the last element of fields 0, 1, 2 of 3: %s" % sorted({tuple(trail[(sz, ty, f)] for f in (0, 1, 2)) for (sz, ty, _f) in trail}))
+        extra = (" (%s)" % "; ".join(notes[:2])) if notes else ""
+        chk.ob("R04.4", "writer::delimiter-between-elements", _all(v_el), W, "the delimiter is written between the elements of a sub-array field, not before the first or after the last" + extra)
+        chk.ob("R04.4", "writer::delimiter-between-fields", _all(v_fd), W, "the delimiter is written between fields, not after the last" + extra)
+        chk.ob("R04.4", "writer::cursor-advances-by-element-size", _all(v_cur), W, "the data cursor advances by one element per element written" + extra)
+        chk.ob("R04.4", "writer::element-size", _all(v_sz), W, "element size is field size / number of elements" + extra)
+        chk.ob("R04.4", "writer::string-vs-number-dispatch", _all(v_disp), W, "string elements go to the byte writer, all others to the formatted writer of their type" + extra)
+    # ---- rows
+    rkeys = [("R04.4", "writer::all-rows-all-fields", "every field of every row is written"), ("R04.4", "writer::newline-per-row", "one newline ends each row")]
+
+    def rows():
+        out = []
+        for nrows, nfields in ((2, 3), (3, 1)):
+            tr = _one(tu, "Records::WriteRows", [], _mem(mNrows=nrows, mNfields=nfields), opaque=("WriteField", "WriteArrayFieldWithBrackets"))
+            if tr.end != "return":
+                raise _CUnrec("WriteRows throws on the test shape")
+            toks = [("F", c[2][0]) if c[1] == "WriteField" and len(c[2]) == 1 else (("N",) if _is_newline_out(c) else ("X", c[1])) for c in tr.calls()]
+            if any(t[0] == "X" for t in toks):
+                raise _CUnrec("WriteRows calls %s, which is neither the field writer nor an output of the newline" % sorted({t[1] for t in toks if t[0] == "X"}))
+            out.append((nrows, nfields, toks))
+        return out
+    res = _group(chk, rkeys, rows)
+    if res is not None:
+        v_all = [[t[1] for t in toks if t[0] == "F"] == list(range(nf)) * nr and not any(t[0] == "X" for t in toks) for nr, nf, toks in res]
+        v_nl = ["".join(t[0] for t in toks) == ("F" * nf + "N") * nr for nr, nf, toks in res]
+        shown = ["".join(t[0] + (str(t[1]) if t[0] == "F" else "") for t in toks) for nr, nf, toks in res]
+        chk.ob("R04.4", "writer::all-rows-all-fields", _all(v_all), W, "every field of every row is written, in order (2 rows of 3 fields, 3 rows of 1: %s)" % shown)
+        chk.ob("R04.4", "writer::newline-per-row", _all(v_nl), W, "one newline ends each row (%s)" % shown)
+    # ---- reader for numbers
+    buf = _mkaff(_SYM("buff"), 0)
+    dkeys = [("R04.4", "reader::whitespace-mode-consumes-one-separator", "in whitespace mode one separator is consumed after a number (the scan format has no suffix there)"),
+             ("R04.4", "reader::string-vs-number-dispatch", "strings are read byte-wise, everything else by formatted scan")]
+
+    def column():
+        out = {}
+        for typ in (_D, _S):
+            for ws in (0, 1):
+                tr = _one(tu, "Records::read_from_text_column", [1, buf], _mem(mTypeNums=_Arr(typ), mReadAsWhitespace=ws), opaque=("read_ascii_bytes", "scan_column_values"))
+                if tr.end != "return" or tr.stores():
+                    raise _CUnrec("read_from_text_column throws or stores on the test shape")
+                out[(typ, ws)] = [(c[1],) + tuple(c[2]) for c in tr.calls()]
+        return out
+    res = _group(chk, dkeys, column)
+    if res is not None:
+        num, st = ("scan_column_values", 1, buf), ("read_ascii_bytes", 1, buf)
+        okw = res[(_D, 1)] == [num, ("fgetc", fptr)] and res[(_D, 0)] == [num]
+        chk.ob("R04.4", "reader::whitespace-mode-consumes-one-separator", okw, W,
+               "in whitespace mode one separator is consumed after a number (the scan format has no suffix there), otherwise none (%s)" % [[c[0] for c in res[(_D, w)]] for w in (0, 1)])
+        okd = res[(_S, 0)] == [st] and res[(_S, 1)] == [st] and res[(_D, 0)][:1] == [num] and res[(_D, 1)][:1] == [num]
+        chk.ob("R04.4", "reader::string-vs-number-dispatch", okd, W, "strings are read byte-wise, everything else by formatted scan (%s)" % {k: [c[0] for c in v] for k, v in res.items()})
+    skeys = [("R04.4", "reader::scan-uses-type-format", "numbers are scanned with the scan format of their type into the output element"),
+             ("R04.4", "reader::cursor-advances-by-element-size", "the output cursor advances by one element per scanned element")]
+
+    def scan():
+        out = []
+        for size, nel, typ in ((24, 3, _D), (8, 4, NPY_TYPES["NPY_SHORT"])):
+            tr = _one(tu, "Records::scan_column_values", [1, buf], _mem(mSizes=_Arr(size), mNel=_Arr(nel), mTypeNums=_Arr(typ)))
+            if tr.end != "return":
+                raise _CUnrec("scan_column_values throws on the test shape")
+            out.append((size, nel, typ, [(c[1],) + tuple(c[2]) for c in tr.calls()], tr.stores()))
+        return out
+    res = _group(chk, skeys, scan)
+    if res is not None:
+        v_fmt, v_cur, notes = [], [], []
+        for size, nel, typ, calls, stores in res:
+            sc = [c for c in calls if c[0] == "fscanf"]
+            v_fmt.append(len(sc) == nel and sc == calls and not stores and all(len(c) == 4 and c[1] == fptr and c[2] == ("idx", _SYM("mScanFormats"), typ) and _aff(c[3])[0] == buf[1] for c in sc))
+            v_cur.append(len(sc) == nel and [_aff(c[3]) for c in sc if len(c) == 4] == [(buf[1], i * (size // nel)) for i in range(nel)])
+            if not (v_fmt[-1] and v_cur[-1]):
+                notes.append("%d elements of %d bytes: %s" % (nel, size // nel, ["%s(%s)" % (c[0], ", ".join(_show(a) for a in c[1:])) for c in calls][:5]))
+        extra = (" (%s)" % "; ".join(notes[:2])) if notes else ""
+        chk.ob("R04.4", "reader::scan-uses-type-format", _all(v_fmt), W, "numbers are scanned with the scan format of their type into the output element, one fscanf per element" + extra)
+        chk.ob("R04.4", "reader::cursor-advances-by-element-size", _all(v_cur), W, "the output cursor advances by one element (size/nel bytes) per scanned element" + extra)
+
+# ---------------------------------------------------------------------------
+# path-sensitive evaluation of small python functions (R04.3)
+#
+# A function is executed over a term domain along every acyclic path (loops: zero or one pass).  Every evaluated call makes
+# a fresh value, so object identity (`x = y.copy(); f(x); g(x)`) is preserved; private helpers of the repository (leading
+# underscore) are followed into, so extracting or inlining a helper, introducing or removing a named temporary, swapping the
+# arms of an if, using a guard clause or a conditional expression all give the same path summaries.  Branch tests are
+# recorded as (atom, truth) with `not`, `!=`, `is not`, `not in` normalised away; a test whose atoms are already decided on
+# the path, or whose operands are constants, is folded.
+# ---------------------------------------------------------------------------
+class _Unrec(Exception):
+    """the code uses a construct this evaluator does not model: no verdict"""
+
+
+class _V:
+    __slots__ = ("op", "name", "args", "kw")
+
+    def __init__(self, op, name=None, args=(), kw=None):
+        self.op, self.name, self.args, self.kw = op, name, list(args), dict(kw or {})
+
+    def __repr__(self):
+        return "<%s>" % _txt(self)
+
+
+_NEG = {"is not": "is", "!=": "==", "not in": "in"}
+_CMP = {ast.Eq: "==", ast.NotEq: "!=", ast.Is: "is", ast.IsNot: "is not", ast.In: "in", ast.NotIn: "not in", ast.Lt: "<", ast.LtE: "<=",
+        ast.Gt: ">", ast.GtE: ">="}
+
+
+def _txt(v):
+    if v is None:
+        return "-"
+    o = v.op
+    if o in ("param", "name"):
+        return v.name
+    if o == "const":
+        return repr(v.name)
+    if o == "attr":
+        return "%s.%s" % (_txt(v.args[0]), v.name)
+    if o == "sub":
+        return "%s[%s]" % (_txt(v.args[0]), _txt(v.args[1]))
+    if o == "call":
+        a = [_txt(x) for x in v.args[1:]] + ["%s=%s" % (k, _txt(x)) for k, x in sorted(v.kw.items())]
+        return "%s%s(%s)" % ((_txt(v.args[0]) + ".") if v.args[0] is not None else "", v.name, ", ".join(a))
+    if o == "cmp":
+        return "%s %s %s" % (_txt(v.args[0]), v.name, _txt(v.args[1]))
+    if o == "not":
+        return "not (%s)" % _txt(v.args[0])
+    if o in ("bool", "binop"):
+        return "(" + (" %s " % v.name).join(_txt(x) for x in v.args) + ")"
+    return "%s<%s>" % (v.name, ", ".join(_txt(x) for x in v.args))
+
+
+def _pure(v):
+    return v.op in ("param", "name", "const") or (v.op in ("attr", "sub") and all(_pure(x) for x in v.args))
+
+
+def _hkey(v):
+    return _txt(v) if _pure(v) else "#%d" % id(v)
+
+
+def _atoms(v, truth=True):
+    """the elementary facts that follow from `v` having the given truth value"""
+    if v.op == "not":
+        return _atoms(v.args[0], not truth)
+    if v.op == "bool" and ((v.name == "and") == truth):
+        return [a for x in v.args for a in _atoms(x, truth)]
+    if v.op == "cmp" and v.name in _NEG:
+        return [("%s %s %s" % (_txt(v.args[0]), _NEG[v.name], _txt(v.args[1])), not truth)]
+    return [(_txt(v), truth)]
+
+
+class _St:
+    __slots__ = ("env", "heap", "events", "known")
+
+    def __init__(self, env=None, heap=None, events=None, known=None):
+        self.env, self.heap, self.events, self.known = env or {}, heap or {}, events or [], known or {}
+
+    def fork(self):
+        return _St(dict(self.env), dict(self.heap), list(self.events), dict(self.known))
+
+    def assume(self, v, truth):
+        """record the facts; False when they contradict what the path already knows"""
+        for t, b in _atoms(v, truth):
+            if self.known.get(t, b) != b:
+                return False
+            self.known[t] = b
+        return True
+
+
+def _fold(v, st):
+    """truth value of v on this path: True / False / None (open)"""
+    if v.op == "const":
+        return bool(v.name)
+    if v.op == "not":
+        r = _fold(v.args[0], st)
+        return None if r is None else (not r)
+    if v.op == "bool":
+        rs = [_fold(x, st) for x in v.args]
+        if v.name == "and":
+            return False if any(r is False for r in rs) else (True if all(r is True for r in rs) else None)
+        return True if any(r is True for r in rs) else (False if all(r is False for r in rs) else None)
+    if v.op == "cmp" and all(x.op == "const" for x in v.args):
+        a, b = v.args[0].name, v.args[1].name
+        try:
+            return {"==": lambda: a == b, "!=": lambda: a != b, "is": lambda: a is b or (a == b and type(a) is type(b)),
+                    "is not": lambda: not (a is b or (a == b and type(a) is type(b))), "in": lambda: a in b, "not in": lambda: a not in b,
+                    "<": lambda: a < b, "<=": lambda: a <= b, ">": lambda: a > b, ">=": lambda: a >= b}[v.name]()
+        except Exception:
+            return None
+    at = _atoms(v, True)
+    if len(at) == 1 and at[0][0] in st.known:
+        return st.known[at[0][0]] == at[0][1]
+    return None
+
+
+class _PX:
+    def __init__(self, repo, stop=(), max_paths=4000, depth=3):
+        self.repo, self.stop, self.max_paths, self.depth = repo, set(stop), max_paths, depth
+        self.nfork = 0
+        self.inlined = []
+
+    # -- entry ---------------------------------------------------------------
+    def run(self, fi):
+        """[(status, return value, state)] for every path of fi; parameters are symbolic"""
+        st = _St()
+        for p in fi.params:
+            st.env[p.lstrip("*")] = _V("param", p.lstrip("*"))
+        out = []
+        for status, s, ret in self.block(fi.node.body, st, (fi, self.depth)):
+            out.append((status, ret if ret is not None else _V("const", None), s))
+        return out
+
+    def _forked(self):
+        self.nfork += 1
+        if self.nfork > self.max_paths:
+            raise _Unrec("more than %d paths" % self.max_paths)
+
+    # -- statements ------------------------------------------------------------
+    def block(self, stmts, st, ctx):
+        live = [st]
+        done = []
+        for s_ in stmts:
+            nxt = []
+            for s in live:
+                for status, s2, ret in self.stmt(s_, s, ctx):
+                    (nxt if status == "fall" else done).append(s2 if status == "fall" else (status, s2, ret))
+            live = nxt
+            if not live:
+                break
+        return [("fall", s, None) for s in live] + done
+
+    def branch(self, test, st, ctx):
+        """[(truth, state)] for the feasible outcomes of a test expression"""
+        out = []
+        for v, s in self.ev(test, st, ctx):
+            r = _fold(v, s)
+            if r is not None:
+                out.append((r, s))
+                continue
+            self._forked()
+            s2 = s.fork()
+            if s.assume(v, True):
+                out.append((True, s))
+            if s2.assume(v, False):
+                out.append((False, s2))
+        return out
+
+    def stmt(self, n, st, ctx):
+        if isinstance(n, ast.If):
+            out = []
+            for r, s in self.branch(n.test, st, ctx):
+                out += self.block(n.body if r else n.orelse, s, ctx)
+            return out
+        if isinstance(n, (ast.Assign, ast.AnnAssign)):
+            if n.value is None:
+                return [("fall", st, None)]
+            tg = n.targets if isinstance(n, ast.Assign) else [n.target]
+            out = []
+            for v, s in self.ev(n.value, st, ctx):
+                for t in tg:
+                    self.assign(t, v, s, ctx)
+                out.append(("fall", s, None))
+            return out
+        if isinstance(n, ast.AugAssign):
+            load = ast.fix_missing_locations(ast.copy_location(_as_load(n.target), n.target))
+            out = []
+            for (a, b), s in self.ev_many([load, n.value], st, ctx):
+                self.assign(n.target, _V("binop", type(n.op).__name__, [a, b]), s, ctx)
+                out.append(("fall", s, None))
+            return out
+        if isinstance(n, ast.Expr):
+            return [("fall", s, None) for _, s in self.ev(n.value, st, ctx)]
+        if isinstance(n, ast.Return):
+            if n.value is None:
+                return [("return", st, None)]
+            return [("return", s, v) for v, s in self.ev(n.value, st, ctx)]
+        if isinstance(n, ast.Raise):
+            return [("raise", s, None) for _, s in (self.ev(n.exc, st, ctx) if n.exc is not None else [(None, st)])]
+        if isinstance(n, (ast.For, ast.While)):
+            out = []
+            if isinstance(n, ast.For):
+                heads = []
+                for it, s in self.ev(n.iter, st, ctx):
+                    self._forked()
+                    s0 = s.fork()
+                    self.assign(n.target, _V("elem", "elem", [it]), s, ctx)
+                    heads += [(True, s), (False, s0)]
+            else:
+                heads = self.branch(n.test, st, ctx)
+            for r, s in heads:
+                if not r:
+                    out += self.block(n.orelse, s, ctx)
+                    continue
+                for status, s2, ret in self.block(n.body, s, ctx):
+                    if status in ("fall", "continue"):
+                        out += self.block(n.orelse, s2, ctx)
+                    elif status == "break":
+                        out.append(("fall", s2, None))
+                    else:
+                        out.append((status, s2, ret))
+            return out
+        if isinstance(n, (ast.Break, ast.Continue)):
+            return [("break" if isinstance(n, ast.Break) else "continue", st, None)]
+        if isinstance(n, ast.With):
+            sts = [st]
+            for it in n.items:
+                nx = []
+                for s in sts:
+                    for v, s2 in self.ev(it.context_expr, s, ctx):
+                        if it.optional_vars is not None:
+                            self.assign(it.optional_vars, v, s2, ctx)
+                        nx.append(s2)
+                sts = nx
+            return [r for s in sts for r in self.block(n.body, s, ctx)]
+        if isinstance(n, ast.Try):
+            self._forked()
+            s0 = st.fork()
+            out = []
+            for status, s, ret in self.block(n.body, st, ctx):
+                out += self.block(n.orelse, s, ctx) if status == "fall" else [(status, s, ret)]
+            for h in n.handlers:
+                s = s0.fork()
+                if h.name:
+                    s.env[h.name] = _V("other", "exception")
+                out += self.block(h.body, s, ctx)
+            if n.finalbody:
+                fin = []
+                for status, s, ret in out:
+                    for st2, s2, r2 in self.block(n.finalbody, s, ctx):
+                        fin.append((status, s2, ret) if st2 == "fall" else (st2, s2, r2))
+                out = fin
+            return out
+        if isinstance(n, ast.Delete):
+            for t in n.targets:
+                if isinstance(t, (ast.Subscript, ast.Attribute)):
+                    for (b, k), s in self.lvalue(t, st, ctx):
+                        s.heap.pop((_hkey(b), k), None)
+                        s.events.append(("del", b, k))
+                elif isinstance(t, ast.Name):
+                    st.env.pop(t.id, None)
+            return [("fall", st, None)]
+        if isinstance(n, ast.Assert):
+            return [("fall", s, None) for r, s in self.branch(n.test, st, ctx) if r]
+        if isinstance(n, (ast.Pass, ast.Global, ast.Nonlocal)):
+            return [("fall", st, None)]
+        if isinstance(n, (ast.Import, ast.ImportFrom)):
+            for al in n.names:
+                nm = (al.asname or al.name).split(".")[0]
+                st.env[nm] = _V("name", nm)
+            return [("fall", st, None)]
+        if isinstance(n, (ast.FunctionDef, ast.ClassDef)):
+            st.env[n.name] = _V("other", "def " + n.name)
+            return [("fall", st, None)]
+        raise _Unrec("statement %s at line %s" % (type(n).__name__, getattr(n, "lineno", "?")))
+
+    def lvalue(self, t, st, ctx):
+        """[((base value, key), state)] of an attribute / subscript target"""
+        if isinstance(t, ast.Attribute):
+            return [((b, t.attr), s) for b, s in self.ev(t.value, st, ctx)]
+        return [((b, "[%s]" % _txt(i)), s) for (b, i), s in self.ev_many([t.value, t.slice], st, ctx)]
+
+    def assign(self, t, v, st, ctx):
+        if isinstance(t, ast.Name):
+            st.env[t.id] = v
+        elif isinstance(t, (ast.Attribute, ast.Subscript)):
+            r = self.lvalue(t, st, ctx)
+            if len(r) != 1 or r[0][1] is not st:
+                raise _Unrec("forking assignment target")
+            b, k = r[0][0]
+            st.heap[(_hkey(b), k)] = v
+            st.events.append(("store", b, k, v))
+        elif isinstance(t, (ast.Tuple, ast.List)):
+            for i, e in enumerate(t.elts):
+                self.assign(e, _V("sub", None, [v, _V("const", i)]), st, ctx)
+        elif isinstance(t, ast.Starred):
+            self.assign(t.value, _V("other", "rest", [v]), st, ctx)
+        else:
+            raise _Unrec("assignment target %s" % type(t).__name__)
+
+    # -- expressions -------------------------------------------------------------
+    def ev_many(self, exprs, st, ctx):
+        outs = [([], st)]
+        for e in exprs:
+            outs = [(vals + [v], s2) for vals, s in outs for v, s2 in self.ev(e, s, ctx)]
+        return outs
+
+    def ev(self, e, st, ctx):
+        if isinstance(e, ast.Constant):
+            return [(_V("const", e.value), st)]
+        if isinstance(e, ast.Name):
+            return [(st.env.get(e.id) or _V("name", e.id), st)]
+        if isinstance(e, ast.Attribute):
+            out = []
+            for b, s in self.ev(e.value, st, ctx):
+                out.append((s.heap.get((_hkey(b), e.attr)) or _V("attr", e.attr, [b]), s))
+            return out
+        if isinstance(e, ast.Subscript):
+            out = []
+            for (b, i), s in self.ev_many([e.value, e.slice], st, ctx):
+                v = s.heap.get((_hkey(b), "[%s]" % _txt(i)))
+                if v is None and b.op == "const" and i.op == "const":
+                    try:
+                        v = _V("const", b.name[i.name])
+                    except Exception:
+                        v = None
+                out.append((v or _V("sub", None, [b, i]), s))
+            return out
+        if isinstance(e, ast.Call):
+            return self.call(e, st, ctx)
+        if isinstance(e, ast.Compare) and len(e.ops) == 1:
+            return [(_V("cmp", _CMP[type(e.ops[0])], [a, b]), s) for (a, b), s in self.ev_many([e.left, e.comparators[0]], st, ctx)]
+        if isinstance(e, ast.UnaryOp) and isinstance(e.op, ast.Not):
+            return [(_V("not", None, [a]), s) for a, s in self.ev(e.operand, st, ctx)]
+        if isinstance(e, ast.UnaryOp) and isinstance(e.op, ast.USub) and isinstance(e.operand, ast.Constant):
+            return [(_V("const", -e.operand.value), st)]
+        if isinstance(e, ast.BoolOp):
+            return [(_V("bool", "and" if isinstance(e.op, ast.And) else "or", vs), s) for vs, s in self.ev_many(e.values, st, ctx)]
+        if isinstance(e, ast.BinOp):
+            return [(_V("binop", type(e.op).__name__, vs), s) for vs, s in self.ev_many([e.left, e.right], st, ctx)]
+        if isinstance(e, ast.IfExp):
+            out = []
+            for r, s in self.branch(e.test, st, ctx):
+                out += self.ev(e.body if r else e.orelse, s, ctx)
+            return out
+        if isinstance(e, (ast.List, ast.Tuple, ast.Set)):
+            return [(_V("seq", type(e).__name__.lower(), vs), s) for vs, s in self.ev_many(e.elts, st, ctx)]
+        if isinstance(e, ast.Dict):
+            if any(k is None for k in e.keys):
+                return [(_V("seq", "dict", []), st)]
+            out = []
+            for vs, s in self.ev_many([x for kv in zip(e.keys, e.values) for x in kv], st, ctx):
+                d = _V("seq", "dict", vs)
+                for k, v in zip(vs[0::2], vs[1::2]):            # the entries of a dict display are its first stores
+                    s.heap[(_hkey(d), "[%s]" % _txt(k))] = v
+                out.append((d, s))
+            return out
+        if isinstance(e, ast.Starred):
+            return [(_V("other", "star", [v]), s) for v, s in self.ev(e.value, st, ctx)]
+        if isinstance(e, ast.Slice):
+            parts = [x if x is not None else ast.Constant(None) for x in (e.lower, e.upper, e.step)]
+            return [(_V("other", "slice", vs), s) for vs, s in self.ev_many(parts, st, ctx)]
+        if isinstance(e, (ast.UnaryOp, ast.Compare)):
+            kids = [e.operand] if isinstance(e, ast.UnaryOp) else [e.left] + list(e.comparators)
+            return [(_V("other", type(e).__name__ + ":" + norm(e), vs), s) for vs, s in self.ev_many(kids, st, ctx)]
+        if isinstance(e, (ast.JoinedStr, ast.FormattedValue, ast.Lambda, ast.ListComp, ast.SetComp, ast.DictComp, ast.GeneratorExp)):
+            return [(_V("other", type(e).__name__ + ":" + norm(e)), st)]      # no calls are followed inside these
+        raise _Unrec("expression %s at line %s" % (type(e).__name__, getattr(e, "lineno", "?")))
+
+    def call(self, e, st, ctx):
+        fi, depth = ctx
+        f = e.func
+        if any(k.arg is None for k in e.keywords):
+            kws = [k for k in e.keywords if k.arg is not None]
+            star = True
+        else:
+            kws, star = e.keywords, False
+        star = star or any(isinstance(a, ast.Starred) for a in e.args)
+        recv_e = f.value if isinstance(f, ast.Attribute) else None
+        name = f.attr if isinstance(f, ast.Attribute) else (f.id if isinstance(f, ast.Name) else "<call>")
+        exprs = ([recv_e] if recv_e is not None else ([f] if name == "<call>" else [])) + list(e.args) + [k.value for k in kws]
+        out = []
+        for vals, s in self.ev_many(exprs, st, ctx):
+            recv = vals[0] if (recv_e is not None or name == "<call>") else None
+            pos = vals[(1 if recv is not None else 0):len(vals) - len(kws)]
+            kw = {k.arg: v for k, v in zip(kws, vals[len(vals) - len(kws):])}
+            if star:
+                kw["**"] = _V("other", "starargs")
+            tgt = None if star else self.target(fi, recv, name, s)
+            if tgt is not None and depth > 0 and tgt.name.startswith("_") and not tgt.name.startswith("__") and tgt.name not in self.stop \
+                    and not any(p.startswith("*") for p in tgt.params):
+                res = self.inline(tgt, recv, pos, kw, s, depth)
+                if res is not None:
+                    out += res
+                    continue
+            v = _V("call", name, [recv] + pos, kw)
+            s.events.append(("call", v))
+            if name == "update" and recv is not None and not star and len(pos) <= 1 and (not pos or (pos[0].op == "seq" and pos[0].name == "dict")):
+                # d.update({...}, k=v): the same stores as d[k] = v
+                pairs = list(zip(pos[0].args[0::2], pos[0].args[1::2])) if pos else []
+                for k, x in pairs + [(_V("const", k), x) for k, x in kw.items()]:
+                    s.heap[(_hkey(recv), "[%s]" % _txt(k))] = x
+            elif name == "dict" and recv is None and not star and not pos:
+                for k, x in kw.items():
+                    s.heap[(_hkey(v), "[%s]" % _txt(_V("const", k)))] = x
+            out.append((v, s))
+        return out
+
+    def target(self, fi, recv, name, st):
+        """the repository function a call resolves to, or None"""
+        if recv is None:
+            if name in st.env:
+                return None
+            return self.repo.funcs.get(self.repo.resolve_name(fi.module, name))
+        if recv.op == "param" and recv.name == "self" and fi.cls:
+            return self.repo.funcs.get("%s.%s.%s" % (fi.module.name, fi.cls, name))
+        if recv.op in ("name", "attr") and _pure(recv):
+            return self.repo.funcs.get(self.repo.resolve_name(fi.module, _txt(recv) + "." + name))
+        return None
+
+    def inline(self, tgt, recv, pos, kw, st, depth):
+        params = list(tgt.params)
+        env = {}
+        if tgt.cls and params and recv is not None:
+            env[params.pop(0)] = recv
+        if len(pos) > len(params) or any(k not in params for k in kw):
+            return None
+        for p, v in zip(params, pos):
+            env[p] = v
+        for k, v in kw.items():
+            if k in env:
+                return None
+            env[k] = v
+        for p in params:
+            if p not in env:
+                d = tgt.defaults.get(p)
+                if d is None:
+                    return None
+                env[p] = _V("const", d.value) if isinstance(d, ast.Constant) else _V("other", "default:" + norm(d))
+        caller_env = st.env
+        st.env = env
+        self.inlined.append(tgt.qualname)
+        out = []
+        for status, s, ret in self.block(tgt.node.body, st, (tgt, depth - 1)):
+            if status in ("fall", "return"):
+                s.env = dict(caller_env)
+                out.append((ret if ret is not None else _V("const", None), s))
+        return out
+
+
+def _as_load(t):
+    import copy as _c
+    t = _c.deepcopy(t)
+    for x in ast.walk(t):
+        if hasattr(x, "ctx"):
+            x.ctx = ast.Load()
+    return t
+
+_PY_STOP = ("_remove_byteorder", "_match_key")      # semantic handles: never followed into
+_INPLACE = ("to_native_inplace",)
+
+
+def _is_call(v, *names):
+    return v is not None and v.op == "call" and v.name in names
+
+
+def _fresh(v):
+    """a new array that shares no memory with anything the caller holds"""
+    if v is None or v.op != "call":
+        return False
+    if v.name in ("copy", "deepcopy"):
+        return True
+    nocopy = "copy" in v.kw and not (v.kw["copy"].op == "const" and v.kw["copy"].name is True)
+    if v.name == "array" and v.args[0] is not None and _txt(v.args[0]) in ("numpy", "np"):
+        return not nocopy
+    if v.name == "astype" and v.args[0] is not None:
+        return not nocopy
+    if v.name in ("view", "reshape", "ravel", "squeeze") and v.args[0] is not None:
+        return _fresh(v.args[0])
+    return False
+
+
+def _plain_array(v):
+    """the parameter, or numpy views / copies of it: nothing a helper that was not followed could have converted"""
+    if v is None:
+        return False
+    if v.op == "param":
+        return True
+    if v.op == "call" and v.name in ("view", "copy", "array", "asarray", "ascontiguousarray", "astype", "reshape", "ravel", "squeeze", "atleast_1d"):
+        return any(_plain_array(x) for x in v.args if x is not None)
+    return False
+
+
+def _self_calls(st, known=()):
+    """calls of methods on self that were not followed and are not known to leave the attributes of interest alone"""
+    return sorted({e[1].name for e in st.events if e[0] == "call" and e[1].args[0] is not None and e[1].args[0].op == "param" and e[1].args[0].name == "self"
+                   and e[1].name not in known})
+
+
+def _paths(chk, repo, fi, keys, rule="R04.3"):
+    """normal-exit paths of fi, or None after reporting `keys` as not recognised"""
+    chk.analysed_unit(fi.qualname)
+    try:
+        px = _PX(repo, stop=_PY_STOP)
+        res = px.run(fi)
+    except _Unrec as e:
+        for k, msg in keys:
+            chk.ob(rule, k, None, fi.where(), "%s [path evaluation of %s gave up: %s]" % (msg, fi.name, e))
+        return None
+    for q in px.inlined:
+        chk.analysed_unit(q)
+    return [(ret, st) for status, ret, st in res if status in ("fall", "return")]
+
+
+def _verdict(vs):
+    """all paths must agree with the rule: one contradiction -> False, otherwise one unrecognised -> None"""
+    vs = list(vs)
+    if any(v is False for v in vs):
+        return False
+    if not vs or any(v is None for v in vs):
+        return None
+    return True
 
 
 def python_side(chk, repo):
+    recfile_write(chk, repo)
+    recfile_open(chk, repo)
+    make_header(chk, repo)
+    sfile_open(chk, repo)
+
+
+def recfile_write(chk, repo):
     fi = repo.func("esutil.recfile.Util.Recfile.write")
-    chk.analysed_unit(fi.qualname)
-    cfg = cfg_of(fi)
-    view = cfg.view()
-    conv = [n for n in cfg.nodes for c in rules.stmts_calls(n) if call_name(c) in ("to_native_inplace", "to_native")]
-    wr = [n for n in cfg.nodes for c in rules.stmts_calls(n) if call_name(c) == "Write"]
-    ok = len(conv) == 1 and len(wr) == 1 and dict(rules.controlling_tests(view, conv[0])).get("self.is_ascii") == "T" and view.reaches(conv[0], wr[0])
-    chk.ob("R04.3", "Recfile.write::native-order-before-text-write", ok, fi.where(), "for text files the data are converted to native order before Records::Write (and only then)")
-    cp = [n for n in cfg.nodes if n.kind == "stmt" and isinstance(n.ast, ast.Assign) and isinstance(n.ast.value, ast.Call) and call_name(n.ast.value) == "copy"]
-    okc = bool(cp) and bool(conv) and any(view.dominates(c, conv[0]) and dict(rules.controlling_tests(view, c)).get("self.is_ascii") == "T" for c in cp)
-    chk.ob("R04.3", "Recfile.write::converts-a-copy", okc, fi.where(), "the in-place conversion is applied to a copy (the effect analysis of C15 decides that the caller's buffer is unreachable)")
+    m1 = "for text files the data are converted to native order before Records::Write (and only then)"
+    m2 = "the in-place conversion is applied to a copy (the effect analysis of C15 decides that the caller's buffer is unreachable)"
+    k1, k2 = "Recfile.write::native-order-before-text-write", "Recfile.write::converts-a-copy"
+    paths = _paths(chk, repo, fi, [(k1, m1), (k2, m2)])
+    if paths is None:
+        return
+    v1, v2, notes = [], [], []
+    for ret, st in paths:
+        calls = [(i, e[1]) for i, e in enumerate(st.events) if e[0] == "call"]
+        convs = [(i, c) for i, c in calls if c.name in _INPLACE or c.name == "to_native"]
+        raw = [c for i, c in calls if c.name in ("byteswap", "newbyteorder")]
+        text = st.known.get("self.is_ascii")
+        for i, w in calls:
+            if w.name != "Write" or len(w.args) < 2:
+                continue
+            a = w.args[1]
+            done = any(j < i and len(c.args) >= 2 and c.args[1] is a for j, c in convs if c.name in _INPLACE) or _is_call(a, "to_native")
+            if text is None:
+                # the write is reached without asking whether the file is text -- unless the question is spelled in a way not known here
+                other = [t for t in st.known if "delim" in t or "ascii" in t or "text" in t]
+                v1.append(None if other or raw else False)
+                notes.append("Write(%s) reached without a decision on self.is_ascii %s" % (_txt(a), other))
+            elif text:
+                # unconverted is a contradiction only for an array built in ways known here (view / copy / ... of the argument)
+                v1.append(True if done else (None if raw or not _plain_array(a) else False))
+                if not done:
+                    notes.append("text path writes %s unconverted" % _txt(a))
+            else:
+                bad = [c for j, c in convs if j < i] + raw
+                v1.append(not bad)
+                if bad:
+                    notes.append("binary path converts: %s" % [_txt(c) for c in bad])
+        for i, c in convs:
+            inplace = c.name in _INPLACE or ("inplace" in c.kw and not (c.kw["inplace"].op == "const" and not c.kw["inplace"].name))
+            if not inplace:
+                v2.append(True)
+                continue
+            x = c.args[1] if len(c.args) >= 2 else None
+            v2.append(_fresh(x))
+            if not _fresh(x):
+                notes.append("in-place conversion of %s, which is not a fresh copy, on the path %s" % (_txt(x), sorted(st.known.items())))
+        for c in raw:
+            v2.append(True if (c.name == "newbyteorder" or _fresh(c.args[0])) else None)
+    chk.ob("R04.3", k1, _verdict(v1), fi.where(), m1 + (" (%s)" % "; ".join(notes[:3]) if notes else ""))
+    chk.ob("R04.3", k2, _verdict(v2), fi.where(), m2 + (" (%s)" % "; ".join(notes[:3]) if notes else ""))
+
+
+def _udtype(v):
+    """the dtype the caller asked for: a parameter / keyword named dtype, possibly passed through numpy.dtype"""
+    if v is None:
+        return False
+    if v.op == "param" and v.name == "dtype":
+        return True
+    if _is_call(v, "get", "pop") and len(v.args) >= 2 and v.args[1].op == "const" and v.args[1].name == "dtype":
+        return True
+    return _is_call(v, "dtype") and len(v.args) == 2 and _udtype(v.args[1])
+
+
+def _truth(v, st):
+    return None if v is None else _fold(v, st)
+
+
+def recfile_open(chk, repo):
     op = repo.func("esutil.recfile.Util.Recfile.open")
-    cfg = cfg_of(op)
-    view = cfg.view()
-    st = [(norm(n.ast.value), dict(rules.controlling_tests(view, n, skip_reject_guards=True))) for n in cfg.nodes if n.kind == "stmt" and isinstance(n.ast, ast.Assign) and norm(n.ast.targets[0]) == "self.dtype"]
-    ok = ("numpy.dtype(nbo)", {"self.mode[0] == 'r'": "T", "self.is_ascii": "T"}) in st and any(v == "numpy.dtype(dtype)" for v, _ in st)
-    chk.ob("R04.3", "Recfile.open::reader-dtype-stripped-for-text-only", ok, op.where(), "the reader's dtype loses its byte order exactly for text files (%s)" % st)
-    nbo = [norm(a.value) for a in walk_no_nested(op.node) if isinstance(a, ast.Assign) and norm(a.targets[0]) == "nbo"]
-    chk.ob("R04.3", "Recfile.open::stripper", nbo == ["remove_dtype_byteorder(self.dtype)"], op.where(), "stripping uses remove_dtype_byteorder (checked by C16 R16.5)")
-    asc = [(norm(n.ast.value), rules.controlling_tests(view, n)[:1]) for n in cfg.nodes if n.kind == "stmt" and isinstance(n.ast, ast.Assign) and norm(n.ast.targets[0]) == "self.is_ascii"]
-    chk.ob("R04.3", "Recfile.open::text-iff-delimiter", sorted(asc) == sorted([("True", [("self.delim is not None", "T")]), ("False", [("self.delim is not None", "F")])]), op.where(), "a file is text exactly when a delimiter is given (%s)" % asc)
+    m1 = "the reader's dtype loses its byte order exactly for text files"
+    m2 = "stripping uses remove_dtype_byteorder (checked by C16 R16.5)"
+    m3 = "a file is text exactly when a delimiter is given"
+    k1, k2, k3 = "Recfile.open::reader-dtype-stripped-for-text-only", "Recfile.open::stripper", "Recfile.open::text-iff-delimiter"
+    paths = _paths(chk, repo, op, [(k1, m1), (k2, m2), (k3, m3)])
+    if paths is None:
+        return
+    v1, v2, v3, notes = [], [], [], []
+    for ret, st in paths:
+        asc = st.heap.get(("self", "is_ascii"))
+        delim = st.heap.get(("self", "delim"))
+        mode = st.heap.get(("self", "mode"))
+        # text exactly when a delimiter is given: is_ascii == (delim is not None) in the final state of every path
+        if asc is None or delim is None:
+            other = _self_calls(st, ("close", "_count_nrows"))
+            v3.append(None if (asc is None) == (delim is None) or other else False)
+            notes.append("a path leaves self.is_ascii / self.delim unset %s" % (other or ""))
+            text = None
+        else:
+            want = _fold(_V("cmp", "is not", [delim, _V("const", None)]), st)
+            text = _fold(asc, st)
+            if asc.op == "cmp" and asc.name in ("is not", "is") and _txt(asc.args[0]) == _txt(delim) and asc.args[1].op == "const" and asc.args[1].name is None:
+                v3.append(asc.name == "is not")
+            elif want is None or text is None:
+                v3.append(None)
+                notes.append("is_ascii=%s with delim=%s undecided under %s" % (_txt(asc), _txt(delim), sorted(st.known.items())))
+            else:
+                v3.append(want == text)
+                if want != text:
+                    notes.append("is_ascii=%s although delim=%s under %s" % (_txt(asc), _txt(delim), sorted(st.known.items())))
+        # the reader
+        reading = None if mode is None else _fold(_V("cmp", "==", [_V("sub", None, [mode, _V("const", 0)]), _V("const", "r")]), st)
+        if mode is not None and mode.op == "const" and isinstance(mode.name, str):
+            reading = mode.name[:1] == "r"
+        if not reading:
+            if reading is None:
+                v1.append(None)
+                notes.append("a path does not decide whether the file is opened for reading (%s)" % sorted(st.known.items()))
+            continue
+        d = st.heap.get(("self", "dtype"))
+        inner = d.args[1] if _is_call(d, "dtype") and len(d.args) == 2 else d
+        strip = inner if _is_call(inner, "remove_dtype_byteorder", "descr_to_native") else None
+        if text is None or d is None:
+            v1.append(None)
+            notes.append("reader dtype %s with text-ness undecided" % _txt(d))
+        elif text:
+            ok = strip is not None and len(strip.args) == 2 and _udtype(strip.args[1]) and _is_call(d, "dtype")
+            v1.append(True if ok else (False if _udtype(d) else None))
+            v2.append((strip.name == "remove_dtype_byteorder") if strip is not None else (False if _udtype(d) else None))
+            if not ok:
+                notes.append("text reader dtype is %s" % _txt(d))
+        else:
+            v1.append(True if _udtype(d) else (False if strip is not None else None))
+            if not _udtype(d):
+                notes.append("binary reader dtype is %s" % _txt(d))
+    if not any(v is True for v in v1):
+        v1.append(None)
+    extra = (" (%s)" % "; ".join(notes[:3])) if notes else ""
+    chk.ob("R04.3", k1, _verdict(v1), op.where(), m1 + extra)
+    chk.ob("R04.3", k2, _verdict(v2), op.where(), m2 + extra)
+    chk.ob("R04.3", k3, _verdict(v3), op.where(), m3 + extra)
+
+
+def make_header(chk, repo):
     mh = repo.func("esutil.sfile.SFile._make_header")
-    chk.analysed_unit(mh.qualname)
-    cfg = cfg_of(mh)
-    view = cfg.view()
-    st = {norm(n.ast.targets[0]): (norm(n.ast.value), dict(rules.controlling_tests(view, n))) for n in cfg.nodes if n.kind == "stmt" and isinstance(n.ast, ast.Assign) and norm(n.ast.targets[0]).startswith("head[")}
-    chk.ob("R04.3", "SFile._make_header::delimiter-recorded", st.get("head['_DELIM']") == ("self._delim", {"self._delim is not None": "T"}), mh.where(), "_DELIM is recorded for text files")
-    ds = [(norm(n.ast.value), dict(rules.controlling_tests(view, n))) for n in cfg.nodes if n.kind == "stmt" and isinstance(n.ast, ast.Assign) and norm(n.ast.targets[0]) == "descr"]
-    ok = ("data.dtype.descr", {}) in ds and ("self._remove_byteorder(descr)", {"self._delim is not None": "T"}) in ds and st.get("head['_DTYPE']", ("",))[0] == "descr"
-    chk.ob("R04.3", "SFile._make_header::dtype-stripped-for-text-only", ok, mh.where(), "_DTYPE is data.dtype.descr, byte-order-free exactly for text files (%s)" % ds)
+    m1 = "_DELIM is recorded for text files"
+    m2 = "_DTYPE is data.dtype.descr, byte-order-free exactly for text files"
+    k1, k2 = "SFile._make_header::delimiter-recorded", "SFile._make_header::dtype-stripped-for-text-only"
+    paths = _paths(chk, repo, mh, [(k1, m1), (k2, m2)])
+    if paths is None:
+        return
+    v1, v2, notes = [], [], []
+    for ret, st in paths:
+        hk = _hkey(ret)
+        dl = st.heap.get((hk, "['_DELIM']"))
+        dt = st.heap.get((hk, "['_DTYPE']"))
+        text = _fold(_V("cmp", "is not", [_V("attr", "_delim", [_V("param", "self")]), _V("const", None)]), st)
+        opaque = [_txt(e[1]) for e in st.events if e[0] == "call" and e[1].args[0] is ret and e[1].name not in ("pop", "get", "keys", "items", "values", "copy")
+                  and not (e[1].name == "update" and (hk, "['_DTYPE']") in st.heap)] + \
+            ([] if ret.op in ("seq", "call") else [_txt(ret)])
+        strip = dt if _is_call(dt, "_remove_byteorder", "remove_dtype_byteorder", "descr_to_native") else None
+        src = strip.args[1] if strip is not None and len(strip.args) == 2 else dt
+        plain = src is not None and _txt(src) == "data.dtype.descr"
+        if text is None:
+            v1.append(None)
+            v2.append(None)
+            notes.append("a path does not decide self._delim is None (%s)" % sorted(st.known.items()))
+        elif text:
+            v1.append((_txt(dl) == "self._delim") if dl is not None else (None if opaque else False))
+            v2.append(True if (strip is not None and plain) else ((None if opaque else False) if dt is None else (False if plain else None)))
+            if not v1[-1] or not v2[-1]:
+                notes.append("text header: _DELIM=%s _DTYPE=%s %s" % (_txt(dl), _txt(dt), opaque or ""))
+        else:
+            v1.append(dl is None or _txt(dl) == "self._delim")
+            v2.append(True if (strip is None and plain) else ((None if opaque else False) if dt is None else (False if strip is not None else None)))
+            if not v2[-1]:
+                notes.append("binary header: _DTYPE=%s %s" % (_txt(dt), opaque or ""))
+    extra = (" (%s)" % "; ".join(notes[:3])) if notes else ""
+    chk.ob("R04.3", k1, _verdict(v1), mh.where(), m1 + extra)
+    chk.ob("R04.3", k2, _verdict(v2), mh.where(), m2 + extra)
+
+
+def sfile_open(chk, repo):
     so = repo.func("esutil.sfile.SFile.open")
-    env = {norm(a.targets[0]): norm(a.value) for a in walk_no_nested(so.node) if isinstance(a, ast.Assign)}
-    chk.ob("R04.3", "SFile.open::delimiter-from-header-on-read", env.get("self._delim") in ("delim",) and any(norm(a.value) == "_match_key(self._hdr, '_delim')" for a in walk_no_nested(so.node) if isinstance(a, ast.Assign)), so.where(), "when reading, the delimiter comes from the stored header")
+    m = "when reading, the delimiter comes from the stored header"
+    k = "SFile.open::delimiter-from-header-on-read"
+    paths = _paths(chk, repo, so, [(k, m)])
+    if paths is None:
+        return
+    vs, notes = [], []
+    for ret, st in paths:
+        if st.known.get("filename is None"):
+            continue
+        reading = st.known.get("mode[0] == 'r'")
+        md = st.heap.get(("self", "_mode"))
+        if reading is None and md is not None and md.op == "const" and isinstance(md.name, str):
+            reading = md.name[:1] == "r"
+        d = st.heap.get(("self", "_delim"))
+        rf = [e[1] for e in st.events if e[0] == "call" and e[1].name in ("Recfile", "Open")]
+        passed = [_txt(c.kw["delim"]) if "delim" in c.kw else None for c in rf]
+        if reading is None:
+            vs.append(None)
+            notes.append("a path does not decide mode[0] == 'r' (%s)" % sorted(st.known.items()))
+        elif d is None or not rf:
+            other = _self_calls(st, ("close", "read_header", "get_nrows"))
+            vs.append(None if other else False)
+            notes.append("a path opens the file without setting self._delim or without making the Recfile %s" % (other or ""))
+        elif reading:
+            hdr = d.args[1] if _is_call(d, "_match_key") and len(d.args) >= 3 else None
+            ok = hdr is not None and _is_call(hdr, "read_header") and d.args[2].op == "const" and str(d.args[2].name).lower() == "_delim"
+            vs.append(bool(ok) and all(p == _txt(d) for p in passed))
+            if not vs[-1]:
+                notes.append("reading: self._delim=%s, Recfile gets delim=%s" % (_txt(d), passed))
+        else:
+            vs.append(d.op == "param" and d.name == "delim" and all(p == "delim" for p in passed))
+            if not vs[-1]:
+                notes.append("writing: self._delim=%s, Recfile gets delim=%s" % (_txt(d), passed))
+    if not any(v is True for v in vs):
+        vs.append(None)
+    chk.ob("R04.3", k, _verdict(vs), so.where(), m + ((" (%s)" % "; ".join(notes[:3])) if notes else ""))
